@@ -39,6 +39,19 @@ def S(name: str) -> sp.Symbol:
     return _SYMS[name]
 
 
+def _z(x) -> bool:
+    """is the polynomial / expression identically zero (expand first, simplify only if needed)"""
+    try:
+        e = sp.expand(x)
+    except Exception:
+        return False
+    if e == 0:
+        return True
+    if getattr(e, "is_number", False):
+        return False
+    return sp.simplify(e) == 0
+
+
 def n_of(G: str, K: str) -> sp.Symbol:
     """number of entities of kind K (N nodes, F faces, C cells) of grid G"""
     return S(f"n{K}_{G}")
@@ -62,9 +75,14 @@ def flat_prod(parts) -> tuple:
     return ("prod", tuple(out)) if len(out) != 1 else out[0]
 
 
+SPACE_SIZES: dict = {}   # sizes of analysis-specific spaces (registered by the rule that introduces them)
+
+
 def size_of(space) -> Optional[sp.Expr]:
     if not isinstance(space, tuple) or not space:
         return None
+    if space in SPACE_SIZES:
+        return SPACE_SIZES[space]
     k = space[0]
     if k == "E":
         return n_of(space[1], space[2])
@@ -88,7 +106,10 @@ def size_of(space) -> Optional[sp.Expr]:
         return r
     if k == "bot":
         return sp.Integer(0)
-    return S("|" + fmt_space(space) + "|")
+    if k == "ptr" and len(space) == 3 and space[2] is not None:
+        z = size_of(space[2])
+        return None if z is None else z + 1
+    return S("|" + fmt_space(canon_space(space)) + "|")
 
 
 def fmt_space(s) -> str:
@@ -122,6 +143,8 @@ def fmt_ident(i) -> str:
     if i is None:
         return "?"
     if isinstance(i, tuple):
+        if not i or not isinstance(i[0], str):
+            return "(" + ",".join(fmt_ident(x) if isinstance(x, tuple) else str(x) for x in i) + ")"
         return i[0] + "(" + ",".join(fmt_ident(x) if isinstance(x, tuple) else str(x) for x in i[1:]) + ")"
     return str(i)
 
@@ -174,6 +197,17 @@ class Opaque:
     info: Any = None
 
 
+@dataclass(frozen=True)
+class DictV:
+    items: tuple                # ((key, value), ...)
+
+    def get(self, k):
+        for a, b in self.items:
+            if a == k:
+                return b
+        return None
+
+
 @dataclass
 class ListV:
     items: list = field(default_factory=list)   # concrete appended values (outside loops)
@@ -183,8 +217,9 @@ class ListV:
 @dataclass(frozen=True)
 class Dims:
     """a small integer vector indexed by the Cartesian direction (cart_dims, coarse_dims, ...)"""
-    base: Any                   # sympy IndexedBase or a function i -> expr
-    name: str
+    base: Any = field(compare=False)   # function i -> sympy expression
+    name: str = ""
+    n: Optional[int] = field(default=None, compare=False)   # number of directions when known
 
 
 def fmt_val(v) -> str:
@@ -209,6 +244,22 @@ def fmt_val(v) -> str:
     return type(v).__name__
 
 
+def canon_space(s):
+    """one representative per ordered space: selecting with the array of unique values IS the unique space; the axis an
+    index array lives on is the selection it defines"""
+    if not isinstance(s, tuple) or not s:
+        return s
+    if s[0] == "seq":
+        return canon_space(("sel", s[1]))
+    if s[0] == "hits":
+        return canon_space(("sel", ("where", s[1])))
+    if s[0] == "sel" and isinstance(s[1], tuple) and s[1] and s[1][0] == "umap":
+        return ("U", s[1][1])
+    if s[0] in ("prod", "cat"):
+        return (s[0], tuple(canon_space(x) for x in s[1]))
+    return s
+
+
 def last_axis(v) -> Any:
     if isinstance(v, (Arr, Mask)) and v.axes:
         return v.axes[-1]
@@ -219,4 +270,2590 @@ def count_atoms(p) -> set:
     return {s_ for s_ in getattr(p, "free_symbols", set()) if s_.name.startswith(("nC_", "nF_", "nN_"))}
 
 
-# @@NEXT@@
+# =====================================================================================
+#  KI: flow-ordered abstract interpreter over index spaces
+# =====================================================================================
+
+GRID_FIELDS2 = {"nodes": "N", "cell_centers": "C", "face_centers": "F", "face_normals": "F"}   # shape (3, n_K)
+GRID_FIELDS1 = {"cell_volumes": "C", "face_areas": "F"}                                          # shape (n_K,)
+GRID_COUNTS = {"num_cells": "C", "num_faces": "F", "num_nodes": "N"}
+PRESERVE_FUNCS = {"asarray", "ascontiguousarray", "array", "copy", "atleast_2d"}
+PRESERVE_METHODS = {"copy", "astype", "view"}
+GRID_CTOR_PARAMS = ["dim", "nodes", "face_nodes", "cell_faces", "name", "history", "external_tags"]
+
+
+class KI:
+    """Interprets one (normalised) function body.  `report(kind, ok, node, msg, facts)` receives the generic typing
+    obligations (gather / product / offset / ctor / rank); events needed by the rules are recorded in lists."""
+
+    def __init__(self, fn: ast.FunctionDef, where: str, report, offset_hook=None, tuple_returning=None):
+        self.fn, self.where, self.report = fn, where, report
+        self.offset_hook = offset_hook
+        self.tuple_returning = tuple_returning or {}
+        self.env: dict[str, Any] = {}
+        self.grid_spaces: dict[str, dict[str, Any]] = {}
+        self.mats: dict[Any, Mat] = {}
+        self.returns: list = []
+        self.attr_stores: list = []      # (stmt, receiver value, attr, value)
+        self.sub_stores: list = []       # (stmt, base name, base value, index values, value, aug)
+        self.grids: list = []            # (call node, GridV, bound args {param: (expr, val)})
+        self.ctors: list = []            # (call node, fmt, Mat or None, facts)
+        self.truth: list = []            # (node, value) values used as a truth value
+        self.uniques: list = []
+        self.loops: dict = {}            # loop symbol -> (lo, hi, for-node)
+        self.asserts: list = []
+        self.calls: list = []            # (call node, dotted name, arg values)
+        self.assign_log: dict[str, list] = {}
+        self._seen: set = set()
+        self._site = 0
+        self._loopdepth: list = []
+        self.pm = parent_map(fn)
+        self.unbound: list = []
+        self.phi_src: dict = {}
+        self.vk_join = None              # optional: join of differing value kinds (list -> kind or None)
+        self.thresholds: list = []       # (compare node, array value) for `X > 0`-like tests
+        self.products: list = []         # (node, matrix, other)
+        self.dim_value: dict[str, int] = {}
+        self.locals_ = {n.id for n in ast.walk(fn) if isinstance(n, ast.Name) and isinstance(n.ctx, ast.Store)}
+
+    # ------------------------------------------------------------------ utilities
+    def need(self, kind: str, ok: bool, node: ast.AST, msg: str, **facts) -> None:
+        key = (id(node), kind)
+        if key in self._seen:
+            return
+        self._seen.add(key)
+        self.report(kind, bool(ok), node, msg, facts)
+
+    def site(self, node: ast.AST) -> str:
+        if not hasattr(self, "_sites"):
+            self._sites: dict[int, str] = {}
+        if id(node) not in self._sites:
+            self._site += 1
+            self._sites[id(node)] = f"{self._site}"
+        return self._sites[id(node)]
+
+    def sp_of(self, G: str, K: str):
+        return self.grid_spaces.get(G, {}).get(K, E(G, K))
+
+    def und(self, msg: str, node: Optional[ast.AST] = None) -> Undecided:
+        return Undecided(f"{self.where}: {msg}" + (f" [{u(node)[:100]}]" if node is not None else ""))
+
+    # ------------------------------------------------------------------ statements
+    def run(self, body: list) -> bool:
+        """returns True if the block always terminates (return / raise)"""
+        for s in body:
+            if self.stmt(s):
+                return True
+        return False
+
+    def join(self, e1: dict, e2: dict, at: ast.AST) -> dict:
+        out = {}
+        for k in set(e1) | set(e2):
+            a, b = e1.get(k), e2.get(k)
+            if a == b:
+                out[k] = a
+            elif isinstance(a, Arr) and isinstance(b, Arr) and a.vk == b.vk:
+                ident = ("phi", self.site(at), k)
+                self.phi_src.setdefault(ident, set()).update({a.ident, b.ident})
+                axes = a.axes if a.axes == b.axes else None
+                if axes is None and a.axes is not None and b.axes is not None and len(a.axes) == len(b.axes) == 1 \
+                        and all(isinstance(x.axes[0], tuple) and x.axes[0][0] in ("seq", "hits", "sel") for x in (a, b)):
+                    axes = (("seq", ident),)
+                out[k] = Arr(a.vk, axes, ident, a.flags & b.flags)
+            elif isinstance(a, Arr) and isinstance(b, Arr) and BOT in (a.vk, b.vk):
+                out[k] = b if a.vk == BOT else a
+            elif isinstance(a, Arr) and isinstance(b, Arr) and self.vk_join is not None and a.vk is not None and b.vk is not None \
+                    and self.vk_join([a.vk, b.vk]) is not None:
+                out[k] = Arr(self.vk_join([a.vk, b.vk]), a.axes if a.axes == b.axes else None, None, a.flags & b.flags)
+            elif isinstance(a, ListV) and isinstance(b, ListV):
+                out[k] = b
+            elif isinstance(a, Int) and isinstance(b, Int):
+                out[k] = Int(S(f"phi_{k}{self.site(at)}"), a.kind if a.kind == b.kind else None)
+            else:
+                out[k] = None
+        return out
+
+    def stmt(self, s: ast.stmt) -> bool:
+        if isinstance(s, ast.Expr):
+            if not (isinstance(s.value, ast.Constant)):
+                self.ev(s.value)
+            return False
+        if isinstance(s, ast.Return):
+            self.returns.append((s, self.ev(s.value) if s.value is not None else None))
+            return True
+        if isinstance(s, ast.Raise):
+            return True
+        if isinstance(s, (ast.Pass, ast.Import, ast.ImportFrom, ast.Global, ast.Nonlocal, ast.Break, ast.Continue,
+                          ast.FunctionDef, ast.ClassDef, ast.Delete)):
+            return False
+        if isinstance(s, ast.Assert):
+            self.asserts.append((s, self.ev(s.test)))
+            return False
+        if isinstance(s, ast.If):
+            self.truth_use(s.test)
+            dec = self.decide(s.test)
+            if dec is not None:
+                return self.run(s.body if dec else s.orelse)
+            base = dict(self.env)
+            t1 = self.run(s.body)
+            e1 = self.env
+            self.env = dict(base)
+            t2 = self.run(s.orelse)
+            e2 = self.env
+            if t1 and t2:
+                return True
+            self.env = e2 if t1 else (e1 if t2 else self.join(e1, e2, s))
+            return False
+        if isinstance(s, (ast.For, ast.AsyncFor)):
+            self.for_loop(s)
+            return False
+        if isinstance(s, ast.While):
+            self.truth_use(s.test)
+            base = dict(self.env)
+            self.run(s.body)
+            self.env = self.join(base, self.env, s)
+            return False
+        if isinstance(s, (ast.With, ast.AsyncWith)):
+            return self.run(s.body)
+        if isinstance(s, ast.Try):
+            base = dict(self.env)
+            t = self.run(s.body)
+            e1 = self.env
+            envs = [] if t else [e1]
+            for h in s.handlers:
+                self.env = dict(base)
+                if not self.run(h.body):
+                    envs.append(self.env)
+            if not envs:
+                return True
+            cur = envs[0]
+            for e_ in envs[1:]:
+                cur = self.join(cur, e_, s)
+            self.env = cur
+            self.run(s.orelse)
+            self.run(s.finalbody)
+            return False
+        if isinstance(s, ast.Assign):
+            v = self.ev(s.value)
+            for t in s.targets:
+                self.bind(t, v, s, s.value)
+            return False
+        if isinstance(s, ast.AnnAssign):
+            if s.value is not None:
+                self.bind(s.target, self.ev(s.value), s, s.value)
+            return False
+        if isinstance(s, ast.AugAssign):
+            if isinstance(s.target, ast.Name):
+                fake = ast.BinOp(left=ast.Name(id=s.target.id, ctx=ast.Load()), op=s.op, right=s.value)
+                ast.copy_location(fake, s)
+                ast.fix_missing_locations(fake)
+                self._aug_nodes = getattr(self, "_aug_nodes", {})
+                fake = self._aug_nodes.setdefault(id(s), fake)
+                v = self.ev(fake)
+                self.env[s.target.id] = v
+                self.assign_log.setdefault(s.target.id, []).append((s, v))
+            elif isinstance(s.target, ast.Subscript):
+                self.store_sub(s, s.target, self.ev(s.value), True)
+            elif isinstance(s.target, ast.Attribute):
+                self.attr_stores.append((s, self.ev(s.target.value), s.target.attr, None))
+            return False
+        raise self.und("statement form not handled", s)
+
+    def decide(self, test: ast.expr) -> Optional[bool]:
+        """truth value of a comparison between two concrete integers (dimension-specialised runs)"""
+        if isinstance(test, ast.Compare) and len(test.ops) == 1:
+            l, r = self.ev(test.left), self.ev(test.comparators[0])
+            if isinstance(l, Int) and isinstance(r, Int) and l.p.is_Integer and r.p.is_Integer:
+                a, b = int(l.p), int(r.p)
+                op = test.ops[0]
+                for t_, f_ in ((ast.Eq, a == b), (ast.NotEq, a != b), (ast.Lt, a < b), (ast.LtE, a <= b), (ast.Gt, a > b), (ast.GtE, a >= b)):
+                    if isinstance(op, t_):
+                        return f_
+        return None
+
+    def truth_use(self, test: ast.expr) -> None:
+        t = test
+        while isinstance(t, ast.UnaryOp) and isinstance(t.op, ast.Not):
+            t = t.operand
+        if isinstance(t, ast.BoolOp):
+            for x in t.values:
+                self.truth_use(x)
+            return
+        v = self.ev(t)
+        self.truth.append((t, v))
+
+    def bind(self, t: ast.expr, v, s: ast.stmt, vexpr: Optional[ast.expr]) -> None:
+        if isinstance(t, ast.Name):
+            self.env[t.id] = v
+            self.assign_log.setdefault(t.id, []).append((s, v))
+        elif isinstance(t, (ast.Tuple, ast.List)):
+            items = None
+            if isinstance(v, Tup) and len(v.items) == len(t.elts) and not any(isinstance(x, ast.Starred) for x in t.elts):
+                items = v.items
+            elif isinstance(v, Tup) and any(isinstance(x, ast.Starred) for x in t.elts):
+                k = [i for i, x in enumerate(t.elts) if isinstance(x, ast.Starred)][0]
+                tail = len(t.elts) - k - 1
+                if len(v.items) >= len(t.elts) - 1:
+                    items = list(v.items[:k]) + [None] + (list(v.items[len(v.items) - tail:]) if tail else [])
+            for i, el in enumerate(t.elts):
+                if isinstance(el, ast.Starred):
+                    self.bind(el.value, None, s, None)
+                else:
+                    self.bind(el, items[i] if items is not None else None, s, None)
+        elif isinstance(t, ast.Attribute):
+            self.attr_stores = [x for x in self.attr_stores if x[0] is not s] + [(s, self.ev(t.value), t.attr, v)]
+        elif isinstance(t, ast.Subscript):
+            self.store_sub(s, t, v, False)
+
+    def store_sub(self, s: ast.stmt, t: ast.Subscript, v, aug: bool) -> None:
+        base = self.ev(t.value)
+        idx = self.index_parts(t.slice)
+        ivals = [self.ev(x) if not isinstance(x, ast.Slice) else "slice" for x in idx]
+        if isinstance(base, Arr) and base.axes is not None and len(idx) <= len(base.axes):
+            for pos, (x, iv) in enumerate(zip(idx, ivals)):
+                ax = base.axes[pos] if len(idx) == len(base.axes) else (base.axes[-1] if pos == len(idx) - 1 and len(idx) == 1 and len(base.axes) == 1 else None)
+                self.check_index(t, base, ax, iv)
+        self.sub_stores = [x for x in self.sub_stores if x[0] is not s] + [(s, dotted(t.value) or u(t.value), base, ivals, v, aug)]
+
+    def for_loop(self, s: ast.For) -> None:
+        sym = None
+        it = s.iter
+        tv = None
+        if isinstance(it, ast.Call) and call_name(it) == "range" and it.args and not it.keywords:
+            args = [self.ev(a) for a in it.args]
+            if all(isinstance(a, Int) for a in args) and len(args) <= 2:
+                lo = sp.Integer(0) if len(args) == 1 else args[0].p
+                hi = args[-1].p
+                nm = s.target.id if isinstance(s.target, ast.Name) else "it"
+                sym = S(f"k_{nm}{self.site(s)}")
+                kind = None
+                if len(args) == 1:
+                    for K in "CFN":
+                        for G in self._grids_known():
+                            if _z(hi - n_of(G, K)):
+                                kind = self.sp_of(G, K)
+                self.loops[sym] = (lo, hi, s)
+                tv = Int(sym, kind)
+        elif isinstance(it, ast.Call) and call_name(it) == "arange" and len(it.args) == 1:
+            a = self.ev(it.args[0])
+            if isinstance(a, Int):
+                nm = s.target.id if isinstance(s.target, ast.Name) else "it"
+                sym = S(f"k_{nm}{self.site(s)}")
+                kind = None
+                for K in "CFN":
+                    for G in self._grids_known():
+                        if _z(a.p - n_of(G, K)):
+                            kind = self.sp_of(G, K)
+                self.loops[sym] = (sp.Integer(0), a.p, s)
+                tv = Int(sym, kind)
+        elif isinstance(it, ast.Call) and call_name(it) == "enumerate" and len(it.args) == 1:
+            seq = self.ev(it.args[0])
+            if isinstance(seq, Tup) and seq.items and all(isinstance(x, Tup) and len(x.items) == len(seq.items[0].items)
+                                                          and all(isinstance(y, Int) for y in x.items) for x in seq.items):
+                sym = S(f"k_enum{self.site(s)}")
+                self.loops[sym] = (sp.Integer(0), sp.Integer(len(seq.items)), s)
+                elem = Tup(tuple(Int(S(f"e{j}_{self.site(s)}")) for j in range(len(seq.items[0].items))))
+                tv = Tup((Int(sym), elem))
+        else:
+            seqv = self.ev(it)
+            if isinstance(seqv, Arr) and seqv.axes is not None and len(seqv.axes) == 1 and size_of(seqv.axes[0]) is not None \
+                    and seqv.axes[0][0] == "pos":
+                sym = S(f"k_el{self.site(s)}")
+                self.loops[sym] = (sp.Integer(0), size_of(seqv.axes[0]), s)
+                tv = Opaque("elem", sym)
+        self.bind(s.target, tv, s, None)
+        self._loopdepth.append((sym, s))
+        base = dict(self.env)
+        self.run(s.body)
+        self.env = self.join(base, self.env, s)
+        self.bind(s.target, tv, s, None)
+        self.run(s.body)
+        inner = dict(self.env)
+        self.env = self.join(base, self.env, s)
+        self._loopdepth.pop()
+        self.close_accumulators(s, sym, base, inner)
+        self.run(s.orelse)
+
+    def _grids_known(self) -> list[str]:
+        return [v.name for v in self.env.values() if isinstance(v, GridV)]
+
+    def close_accumulators(self, s: ast.For, sym, base: dict, inner: dict) -> None:
+        """X = np.hstack((X, P)) executed once per iteration of `for k in range(T)`: X = X0 ++ P^T (T blocks of P)."""
+        if sym is None:
+            return
+        lo, hi, _ = self.loops[sym]
+        T = sp.simplify(hi - lo)
+        for st in s.body:
+            if not (isinstance(st, ast.Assign) and len(st.targets) == 1 and isinstance(st.targets[0], ast.Name)):
+                continue
+            nm = st.targets[0].id
+            c = st.value
+            if not (isinstance(c, ast.Call) and call_name(c) in ("hstack", "concatenate", "append")):
+                continue
+            parts = list(c.args[0].elts) if c.args and isinstance(c.args[0], (ast.Tuple, ast.List)) else list(c.args[:2])
+            if len(parts) < 2 or not (isinstance(parts[0], ast.Name) and parts[0].id == nm):
+                continue
+            if sum(1 for st2 in ast.walk(s) if isinstance(st2, (ast.Assign, ast.AugAssign)) and any(
+                    isinstance(t, ast.Name) and t.id == nm for t in (st2.targets if isinstance(st2, ast.Assign) else [st2.target]))) != 1:
+                continue
+            x0 = base.get(nm)
+            saved, self.env = self.env, inner
+            pieces = [self.ev(p) for p in parts[1:]]
+            self.env = saved
+            cur = self.env.get(nm)
+            if not isinstance(cur, Arr) or not all(isinstance(p, Arr) and p.axes is not None for p in pieces) or not isinstance(x0, Arr):
+                continue
+            pa = [p.axes[-1] for p in pieces]
+            if any(sym in getattr(size_of(a), "free_symbols", set()) for a in pa if size_of(a) is not None):
+                continue
+            block = pa[0] if len(pa) == 1 else ("cat", tuple(pa))
+            rep = flat_prod([("pos", T), block])
+            if x0.axes is None:
+                continue
+            head = x0.axes[-1]
+            lastax = rep if head == BOT or size_of(head) == 0 else ("cat", (head, rep))
+            lead = pieces[0].axes[:-1]
+            self.env[nm] = replace(cur, axes=tuple(lead) + (lastax,))
+
+    # ------------------------------------------------------------------ expressions
+    @staticmethod
+    def index_parts(sl: ast.expr) -> list:
+        return list(sl.elts) if isinstance(sl, ast.Tuple) else [sl]
+
+    NAMED = ("E", "U", "sel", "ent", "X", "cat", "prod")
+
+    def compat(self, a, b) -> Optional[bool]:
+        """do two spaces denote the same index space?  None = cannot tell"""
+        if a is None or b is None or a == BOT or b == BOT:
+            return None
+        a, b = canon_space(a), canon_space(b)
+        if a == b:
+            return True
+        for x, y in ((a, b), (b, a)):
+            if x[0] == "pos":
+                sy = size_of(y)
+                if sy is not None and y[0] in ("E", "pos", "prod", "cat", "X"):
+                    return True if _z(sy - x[1]) else (None if y[0] != "pos" else False)
+                return None
+        if a[0] in self.NAMED and b[0] in self.NAMED:
+            return False
+        return None
+
+    def check_index(self, node: ast.AST, base, axis_space, iv) -> None:
+        if axis_space is None or iv is None or iv == "slice":
+            return
+        isp = None
+        if isinstance(iv, Arr):
+            isp = iv.vk
+        elif isinstance(iv, Mask):
+            isp = iv.axes[-1] if iv.axes else None
+        elif isinstance(iv, Int):
+            isp = iv.kind
+        ok = self.compat(isp, axis_space)
+        if ok is None:
+            return
+        self.need("gather", ok, node,
+                  f"`{u(node)[:90]}`: the indexed axis lives on {fmt_space(axis_space)} but the index holds "
+                  f"{'a mask over' if isinstance(iv, Mask) else 'positions of'} {fmt_space(isp)}",
+                  axis=fmt_space(axis_space), index=fmt_space(isp))
+
+    def ev(self, e: Optional[ast.AST]):
+        if e is None:
+            return None
+        if isinstance(e, ast.Name):
+            if e.id not in self.env and e.id in self.locals_:
+                self.unbound.append(e)
+            return self.env.get(e.id)
+        if isinstance(e, ast.Constant):
+            if isinstance(e.value, bool):
+                return Opaque("bool", e.value)
+            if isinstance(e.value, int):
+                return Int(sp.Integer(e.value))
+            if isinstance(e.value, str):
+                return Opaque("str", e.value)
+            return Opaque("const", e.value)
+        if isinstance(e, ast.Tuple):
+            return Tup(tuple(self.ev(x) for x in e.elts))
+        if isinstance(e, ast.List):
+            return ListV([self.ev(x) for x in e.elts])
+        if isinstance(e, ast.Dict):
+            if all(isinstance(k, ast.Constant) for k in e.keys):
+                return DictV(tuple((k.value, self.ev(v)) for k, v in zip(e.keys, e.values)))  # type: ignore[union-attr]
+            return None
+        if isinstance(e, ast.Attribute):
+            return self.ev_attr(e)
+        if isinstance(e, ast.Subscript):
+            return self.ev_subscript(e)
+        if isinstance(e, ast.BinOp):
+            return self.ev_binop(e)
+        if isinstance(e, ast.UnaryOp):
+            v = self.ev(e.operand)
+            if isinstance(e.op, ast.USub):
+                if isinstance(v, Int):
+                    return Int(-v.p)
+                if isinstance(v, Arr):
+                    return replace(v, vk=None, ident=None, val=(-v.val if v.val is not None else None),
+                                   flags=(v.flags - {"unsigned"}) | ({"signed"} if "unsigned" in v.flags else set()))
+                return None
+            if isinstance(e.op, (ast.Invert, ast.Not)):
+                if isinstance(v, Mask):
+                    return Mask(v.axes, v.key, not v.pol)
+                if isinstance(e.op, ast.Not):
+                    self.truth.append((e.operand, v))
+                return None
+            return v
+        if isinstance(e, ast.Compare) and len(e.ops) == 1:
+            l, r = self.ev(e.left), self.ev(e.comparators[0])
+            if isinstance(l, Arr) and isinstance(r, Int) and r.p == 0 and isinstance(e.ops[0], (ast.Gt, ast.GtE)):
+                self.thresholds.append((e, l))
+            for a, b in ((l, r), (r, l)):
+                if isinstance(a, Arr) and not isinstance(b, (Mat, Tup, GridV)):
+                    return Mask(a.axes, u(e))
+            return None
+        if isinstance(e, ast.BoolOp):
+            for x in e.values:
+                self.ev(x)
+            return None
+        if isinstance(e, ast.Call):
+            return self.ev_call(e)
+        if isinstance(e, ast.IfExp):
+            self.truth_use(e.test)
+            a, b = self.ev(e.body), self.ev(e.orelse)
+            return a if a == b else None
+        if isinstance(e, (ast.ListComp, ast.GeneratorExp)):
+            return self.ev_comp(e)
+        if isinstance(e, ast.JoinedStr):
+            return Opaque("str")
+        if isinstance(e, ast.Starred):
+            return self.ev(e.value)
+        return None
+
+    def ev_comp(self, e) -> Any:
+        saved = dict(self.env)
+        for g in e.generators:
+            self.ev(g.iter)
+            self.bind(g.target, None, e, None)  # type: ignore[arg-type]
+        v = self.ev(e.elt)
+        self.env = saved
+        return ListV([], template=(None, v))
+
+    # -- attributes -------------------------------------------------------------------------------
+    def ev_attr(self, e: ast.Attribute):
+        a = e.attr
+        d = dotted(e)
+        if d in ("np.newaxis",):
+            return Opaque("newaxis")
+        b = self.ev(e.value)
+        if isinstance(b, GridV):
+            G = b.name
+            if a in GRID_COUNTS:
+                z = size_of(self.sp_of(G, GRID_COUNTS[a]))
+                return Int(z if z is not None else n_of(G, GRID_COUNTS[a]))
+            if a == "dim":
+                return Int(sp.Integer(self.dim_value[G])) if G in self.dim_value else Int(S(f"dim_{G}"))
+            if a in GRID_FIELDS2:
+                return Arr(None, (POS3, self.sp_of(G, GRID_FIELDS2[a])), ("field", G, a))
+            if a in GRID_FIELDS1:
+                return Arr(None, (self.sp_of(G, GRID_FIELDS1[a]),), ("field", G, a))
+            if a == "cell_faces":
+                m = Mat(self.sp_of(G, "F"), self.sp_of(G, "C"), True, "csc", ("cf", G), "own")
+                self.mats[m.mid] = m
+                return m
+            if a == "face_nodes":
+                m = Mat(self.sp_of(G, "N"), self.sp_of(G, "F"), False, "csc", ("fn", G), "own")
+                self.mats[m.mid] = m
+                return m
+            if a == "cart_dims":
+                base = sp.IndexedBase(f"cart_{G}", integer=True, positive=True)
+                return Dims(lambda i, _b=base: _b[i], f"cart_dims({G})", self.dim_value.get(G))
+            return Opaque("gridattr", (G, a))
+        if isinstance(b, Mat):
+            ent = ("ent", b.mid)
+            if a == "indices":
+                if b.fmt not in ("csc", "csr"):
+                    return None
+                return Arr(b.rk if b.fmt == "csc" else b.ck, (ent,), ("indices", b.mid))
+            if a == "indptr":
+                line = b.ck if b.fmt == "csc" else (b.rk if b.fmt == "csr" else None)
+                return Arr(ent, (("ptr", b.mid, line),), ("indptr", b.mid))
+            if a == "data":
+                return Arr(None, (ent,), ("data", b.mid), frozenset({"signed"} if b.signed else ({"unsigned"} if b.signed is False else set())))
+            if a == "shape":
+                return Tup((self.int_of_space(b.rk), self.int_of_space(b.ck)))
+            if a == "nnz":
+                return self.int_of_space(ent)
+            if a == "T":
+                return self.transpose(b)
+            if a == "format":
+                return Opaque("format", b.fmt)
+            return None
+        if isinstance(b, Arr):
+            if a == "size":
+                if b.axes is None:
+                    return None
+                r = sp.Integer(1)
+                for ax in b.axes:
+                    z = size_of(ax)
+                    if z is None:
+                        return None
+                    r = r * z
+                return Int(r)
+            if a == "shape":
+                if b.axes is None:
+                    return None
+                return Tup(tuple(self.int_of_space(ax) for ax in b.axes))
+            if a == "T":
+                return replace(b, axes=tuple(reversed(b.axes)) if b.axes is not None else None,
+                               ident=("T", b.ident) if b.ident is not None else None)
+            if a == "dtype":
+                return Opaque("dtype", "bool" if "bool" in b.flags else None)
+            return None
+        if isinstance(b, Dims):
+            if a == "size":
+                return Int(S(f"ndims_{b.name}"))
+            return None
+        return None
+
+    def int_of_space(self, s_) -> Optional[Int]:
+        z = size_of(s_)
+        return Int(z) if z is not None else None
+
+    def transpose(self, m: Mat) -> Mat:
+        fmt = {"csc": "csr", "csr": "csc"}.get(m.fmt or "", None)
+        t = Mat(m.ck, m.rk, m.signed, fmt, ("T", m.mid))
+        self.mats[t.mid] = t
+        return t
+
+    def space_from_size(self, p) -> tuple:
+        p = sp.simplify(p)
+        for G in self._grids_known():
+            for K in "CFN":
+                if p == n_of(G, K):
+                    return self.sp_of(G, K)
+        return ("pos", p)
+
+    # -- subscripts -------------------------------------------------------------------------------
+    @staticmethod
+    def _full(x) -> bool:
+        return isinstance(x, ast.Slice) and x.lower is None and x.upper is None and x.step is None
+
+    def ev_subscript(self, e: ast.Subscript):
+        parts = self.index_parts(e.slice)
+        if isinstance(e.value, ast.Attribute) and e.value.attr == "shape" and len(parts) == 1:
+            t = self.ev(e.value)
+            k = self.ev(parts[0])
+            if isinstance(t, Tup) and isinstance(k, Int) and k.p.is_Integer:
+                i = int(k.p)
+                if -len(t.items) <= i < len(t.items):
+                    return t.items[i]
+            return None
+        b = self.ev(e.value)
+        if b is None:
+            for x in parts:
+                if not isinstance(x, ast.Slice):
+                    self.ev(x)
+            return None
+        if isinstance(b, Opaque) and b.what == "gridattr" and b.info[1] == "tags" and len(parts) == 1 \
+                and isinstance(parts[0], ast.Constant) and isinstance(parts[0].value, str):
+            key = parts[0].value
+            K = "F" if key.endswith("_faces") else ("N" if key.endswith("_nodes") else None)
+            return Arr(None, (self.sp_of(b.info[0], K),), ("tag", b.info[0], key), frozenset({"bool"})) if K else None
+        if isinstance(b, DictV):
+            return b.get(parts[0].value) if len(parts) == 1 and isinstance(parts[0], ast.Constant) else None
+        if isinstance(b, Tup):
+            k = self.ev(parts[0]) if len(parts) == 1 and not isinstance(parts[0], ast.Slice) else None
+            if isinstance(k, Int) and k.p.is_Integer and -len(b.items) <= int(k.p) < len(b.items):
+                return b.items[int(k.p)]
+            return None
+        if isinstance(b, ListV):
+            k = self.ev(parts[0]) if len(parts) == 1 and not isinstance(parts[0], ast.Slice) else None
+            if isinstance(k, Int):
+                if b.template is not None and b.template[0] is not None:
+                    return subst_val(b.template[1], b.template[0], k.p)
+                if k.p.is_Integer and -len(b.items) <= int(k.p) < len(b.items):
+                    return b.items[int(k.p)]
+            return None
+        if isinstance(b, Dims):
+            if len(parts) == 1 and not isinstance(parts[0], ast.Slice):
+                k = self.ev(parts[0])
+                if isinstance(k, Int):
+                    return Int(b.base(k.p))
+                return None
+            if len(parts) == 1 and isinstance(parts[0], ast.Slice):
+                sl = parts[0]
+                lo = self.ev(sl.lower) if sl.lower is not None else Int(sp.Integer(0))
+                hi = self.ev(sl.upper) if sl.upper is not None else None
+                if hi is None and b.n is not None:
+                    hi = Int(sp.Integer(b.n))
+                if isinstance(lo, Int) and isinstance(hi, Int) and lo.p.is_Integer and hi.p.is_Integer and sl.step is None:
+                    return Tup(tuple(Int(b.base(sp.Integer(i))) for i in range(int(lo.p), int(hi.p))))
+            return None
+        if isinstance(b, Mat):
+            if len(parts) == 2:
+                r, c = parts
+                if self._full(c) and not isinstance(r, ast.Slice):
+                    iv = self.ev(r)
+                    self.check_index(e, b, b.rk, iv)
+                    if isinstance(iv, (Arr, Mask)):
+                        m = Mat(("sel", self.ident_of(iv, r)), b.ck, b.signed, "csr" if b.fmt == "csr" else None, ("rows", b.mid, self.ident_of(iv, r)))
+                        self.mats[m.mid] = m
+                        return m
+                if self._full(r) and not isinstance(c, ast.Slice):
+                    iv = self.ev(c)
+                    self.check_index(e, b, b.ck, iv)
+                    if isinstance(iv, (Arr, Mask)):
+                        m = Mat(b.rk, ("sel", self.ident_of(iv, c)), b.signed, "csc" if b.fmt == "csc" else None, ("cols", b.mid, self.ident_of(iv, c)))
+                        self.mats[m.mid] = m
+                        return m
+            return None
+        if isinstance(b, Arr):
+            return self.index_array(e, b, parts)
+        return None
+
+    def ident_of(self, v, node: ast.AST):
+        if isinstance(v, Arr) and v.ident is not None:
+            return v.ident
+        if isinstance(v, Mask):
+            return ("mask", v.key, v.pol)
+        return ("anon", self.site(node))
+
+    def index_array(self, e: ast.Subscript, b: Arr, parts: list):
+        if b.axes is None or len(parts) > len(b.axes):
+            ivs = [self.ev(x) for x in parts if not isinstance(x, ast.Slice)]
+            fancy = [v for v in ivs if isinstance(v, (Arr, Mask))]
+            if len(parts) == 1 and len(fancy) == 1 and isinstance(fancy[0], Arr):
+                return Arr(b.vk, fancy[0].axes, None, b.flags & {"signed", "unsigned"})
+            return Arr(b.vk, None, None) if b.vk is not None else None
+        axes_out: list = []
+        ident_parts = []
+        n = len(parts)
+        # a single index applies to the first axis (numpy); remaining axes are kept
+        for pos, x in enumerate(parts):
+            ax = b.axes[pos]
+            if isinstance(x, ast.Slice):
+                if self._full(x):
+                    axes_out.append(ax)
+                    ident_parts.append("all")
+                else:
+                    axes_out.append(("slice", ax, u(x)))
+                    ident_parts.append(u(x))
+                continue
+            iv = self.ev(x)
+            if isinstance(iv, Opaque) and iv.what == "newaxis":
+                return Arr(b.vk, None, None)
+            self.check_index(e, b, ax, iv)
+            if isinstance(iv, Int):
+                ident_parts.append(("at", str(iv.p)))
+                continue
+            if isinstance(iv, Arr) and isinstance(iv.ident, tuple) and iv.ident and iv.ident[0] == "rmi" and len(parts) == 1:
+                return Arr(b.vk, (("hits", iv.ident),), ("picked", b.ident, iv.ident))
+            if isinstance(iv, Arr):
+                axes_out.extend(iv.axes if iv.axes is not None else [None])
+                ident_parts.append(self.ident_of(iv, x))
+                continue
+            if isinstance(iv, Mask):
+                axes_out.append(("sel", self.ident_of(iv, x)))
+                ident_parts.append(self.ident_of(iv, x))
+                continue
+            return Arr(b.vk, None, None) if b.vk is not None else None
+        axes_out.extend(b.axes[n:])
+        if any(a is None for a in axes_out):
+            return Arr(b.vk, None, None)
+        if not axes_out:
+            return Int(S(f"elem{self.site(e)}"), b.vk)
+        ident = ("gather", b.ident, tuple(ident_parts)) if b.ident is not None else None
+        flags = b.flags & {"signed", "unsigned", "bool"}
+        val = None
+        if b.val is not None and len(parts) == 1 and isinstance(parts[0], ast.Slice):
+            val = b.val
+        return Arr(b.vk, tuple(axes_out), ident, flags, val)
+
+    # -- arithmetic -------------------------------------------------------------------------------
+    def ev_binop(self, e: ast.BinOp):
+        l, r = self.ev(e.left), self.ev(e.right)
+        op = e.op
+        if isinstance(l, Int) and isinstance(r, Int):
+            try:
+                if isinstance(op, ast.Add):
+                    return Int(l.p + r.p)
+                if isinstance(op, ast.Sub):
+                    return Int(l.p - r.p)
+                if isinstance(op, ast.Mult):
+                    return Int(sp.expand(l.p * r.p))
+                if isinstance(op, ast.FloorDiv):
+                    return Int(sp.floor(l.p / r.p))
+                if isinstance(op, ast.Div):
+                    return Int(l.p / r.p)
+                if isinstance(op, ast.Pow):
+                    return Int(l.p ** r.p)
+            except Exception:
+                return None
+            return None
+        if isinstance(l, Dims) or isinstance(r, Dims):
+            return self.dims_binop(l, r, op)
+        if isinstance(op, (ast.Mult, ast.MatMult)) and (isinstance(l, Mat) or isinstance(r, Mat)):
+            return self.product(e, l, r)
+        if isinstance(op, (ast.BitAnd, ast.BitOr)) and isinstance(l, Mask) and isinstance(r, Mask):
+            return Mask(l.axes if l.axes == r.axes else None, u(e))
+        for a, b, swapped in ((l, r, False), (r, l, True)):
+            if isinstance(a, Arr) and isinstance(b, Int):
+                if isinstance(op, (ast.Add, ast.Sub)) and a.vk is not None and a.vk != BOT and not (swapped and isinstance(op, ast.Sub)):
+                    off = b.p if isinstance(op, ast.Add) else -b.p
+                    if self.offset_hook is not None:
+                        res = self.offset_hook(self, e, a, off)
+                        if res is not None:
+                            return res
+                    if count_atoms(off):
+                        return Arr(None, a.axes, None)
+                    return Arr(None, a.axes, None, frozenset(), (a.val + off) if a.val is not None else None)
+                val = None
+                if a.val is not None:
+                    try:
+                        val = {ast.Add: lambda x, y: x + y, ast.Sub: (lambda x, y: y - x) if swapped else (lambda x, y: x - y),
+                               ast.Mult: lambda x, y: x * y}.get(type(op), lambda x, y: None)(a.val, b.p)
+                    except Exception:
+                        val = None
+                fl = a.flags & ({"unsigned"} if isinstance(op, ast.Mult) and b.p.is_positive else set())
+                if isinstance(op, ast.Mult) and b.p.is_negative and "unsigned" in a.flags:
+                    fl = frozenset({"signed"})
+                return Arr(None, a.axes, None, frozenset(fl), val)
+        if isinstance(l, Arr) and isinstance(r, Arr):
+            axes = self.broadcast(l.axes, r.axes)
+            val = None
+            if l.val is not None and r.val is not None:
+                try:
+                    val = {ast.Add: l.val + r.val, ast.Sub: l.val - r.val, ast.Mult: l.val * r.val}.get(type(op))
+                except Exception:
+                    val = None
+            return Arr(None, axes, None, frozenset(), val)
+        if isinstance(l, Arr) or isinstance(r, Arr):
+            a = l if isinstance(l, Arr) else r
+            return Arr(None, a.axes, None)
+        return None
+
+    @staticmethod
+    def broadcast(a, b):
+        if a is None or b is None:
+            return None
+        if a == b:
+            return a
+        if len(a) < len(b):
+            a, b = b, a
+        pad = (None,) * (len(a) - len(b)) + tuple(b)
+        out = []
+        for x, y in zip(a, pad):
+            if y is None or x == y:
+                out.append(x)
+            elif isinstance(y, tuple) and y[0] == "pos" and y[1] == 1:
+                out.append(x)
+            elif isinstance(x, tuple) and x[0] == "pos" and x[1] == 1:
+                out.append(y)
+            else:
+                return None
+        return tuple(out)
+
+    def dims_binop(self, l, r, op):
+        def at(v, i):
+            if isinstance(v, Dims):
+                return v.base(i)
+            if isinstance(v, Int):
+                return v.p
+            return None
+        if not all(isinstance(v, (Dims, Int)) for v in (l, r)):
+            return None
+        f = {ast.Add: lambda x, y: x + y, ast.Sub: lambda x, y: x - y, ast.Mult: lambda x, y: x * y,
+             ast.Div: lambda x, y: x / y, ast.FloorDiv: lambda x, y: sp.floor(x / y)}.get(type(op))
+        if f is None:
+            return None
+        return Dims(lambda i, _l=l, _r=r: f(at(_l, i), at(_r, i)), f"({getattr(l, 'name', l)} {type(op).__name__} {getattr(r, 'name', r)})")
+
+    def product(self, e: ast.AST, l, r):
+        if isinstance(l, Mat) and isinstance(r, Mat):
+            ok = self.compat(l.ck, r.rk)
+            if ok is not None:
+                self.need("product", ok, e, f"`{u(e)[:90]}`: left factor has columns on {fmt_space(l.ck)}, right factor rows on {fmt_space(r.rk)}",
+                          left=fmt_val(l), right=fmt_val(r))
+            sg = None if (l.signed is None or r.signed is None) else (l.signed or r.signed)
+            m = Mat(l.rk, r.ck, sg, None, ("prod", l.mid, r.mid))
+            self.mats[m.mid] = m
+            return m
+        self.products.append((e, l, r))
+        if isinstance(l, Mat) and isinstance(r, (Arr, Mask)):
+            ax = last_axis(r) if not (isinstance(r, Arr) and r.axes and len(r.axes) == 2) else r.axes[0]
+            ok = self.compat(l.ck, ax)
+            if ok is not None:
+                self.need("product", ok, e, f"`{u(e)[:90]}`: the matrix has columns on {fmt_space(l.ck)}, the vector lives on {fmt_space(ax)}",
+                          matrix=fmt_val(l), vector=fmt_val(r))
+            fl = {"signed"} if l.signed else ({"unsigned"} if l.signed is False else set())
+            return Arr(None, (l.rk,), None, frozenset(fl))
+        if isinstance(r, Mat) and isinstance(l, (Arr, Mask)):
+            ax = last_axis(l)
+            ok = self.compat(r.rk, ax)
+            if ok is not None:
+                self.need("product", ok, e, f"`{u(e)[:90]}`: the matrix has rows on {fmt_space(r.rk)}, the vector lives on {fmt_space(ax)}")
+            fl = {"signed"} if r.signed else ({"unsigned"} if r.signed is False else set())
+            return Arr(None, (r.ck,), None, frozenset(fl))
+        m = l if isinstance(l, Mat) else r
+        o = r if isinstance(l, Mat) else l
+        if isinstance(o, Int):
+            return replace(m, mid=("scaled", m.mid), alias="fresh")
+        return None
+
+    # -- calls ------------------------------------------------------------------------------------
+    def args_of(self, c: ast.Call, names: list[str]) -> dict[str, ast.expr]:
+        out = {}
+        for nm, a in zip(names, c.args):
+            if isinstance(a, ast.Starred):
+                break
+            out[nm] = a
+        for k in c.keywords:
+            if k.arg is not None:
+                out[k.arg] = k.value
+        return out
+
+    def order_of(self, c: ast.Call, pos: int = 0) -> str:
+        o = kwarg(c, "order")
+        if o is None and len(c.args) > pos:
+            o = c.args[pos]
+        if o is None:
+            return "C"
+        if isinstance(o, ast.Constant) and o.value in ("C", "F"):
+            return o.value
+        return "?"
+
+    def ev_call(self, c: ast.Call):
+        name = call_name(c)
+        d = dotted(c.func) or ""
+        f = c.func
+        # ---- methods on typed receivers
+        if isinstance(f, ast.Attribute) and not d.startswith(("np.", "numpy.", "sps.", "pp.", "nx.")):
+            recv = self.ev(f.value)
+            r = self.ev_method(c, recv, name)
+            if r is not NotImplemented:
+                return r
+        argv = [self.ev(a) for a in c.args]
+        self.calls.append((c, d or name, argv))
+        h = getattr(self, "f_" + (name or ""), None)
+        if h is not None:
+            return h(c, argv)
+        if name in self.tuple_returning and isinstance(f, ast.Name):
+            return self.tuple_returning[name](self, c, argv)
+        for k in c.keywords:
+            self.ev(k.value)
+        return None
+
+    def ev_method(self, c: ast.Call, recv, name):
+        if isinstance(recv, GridV):
+            G = recv.name
+            if name == "cell_nodes":
+                m = Mat(self.sp_of(G, "N"), self.sp_of(G, "C"), False, "csc", ("cn", G, self.site(c)))
+                self.mats[m.mid] = m
+                return m
+            if name == "cell_connection_map":
+                m = Mat(self.sp_of(G, "C"), self.sp_of(G, "C"), False, None, ("c2c", G, self.site(c)))
+                self.mats[m.mid] = m
+                return m
+            if name == "copy":
+                return recv
+            if name == "compute_geometry":
+                return Opaque("none")
+            if name == "get_all_boundary_nodes":
+                return Arr(self.sp_of(G, "N"), (("hits", "bnd_nodes"),), ("bnd_nodes", G))
+            return None
+        if isinstance(recv, Mat):
+            if name in ("tocsc", "tocsr"):
+                fmt = name[2:]
+                if recv.fmt == fmt:
+                    return recv
+                m = Mat(recv.rk, recv.ck, recv.signed, fmt, ("conv", recv.mid, fmt))
+                self.mats[m.mid] = m
+                return m
+            if name in ("tocoo", "tolil", "asformat"):
+                return replace(recv, fmt=None, mid=("conv", recv.mid, name))
+            if name == "copy":
+                return replace(recv, alias="fresh")
+            if name == "transpose":
+                return self.transpose(recv)
+            if name in ("sum", "getnnz"):
+                ax = self.ev(kwarg(c, "axis") or (c.args[0] if c.args else None))
+                if isinstance(ax, Int) and ax.p.is_Integer:
+                    return Arr(None, (recv.ck if int(ax.p) == 0 else recv.rk,), None)
+                return None
+            if name in ("astype", "sorted_indices"):
+                return recv
+            return None
+        if isinstance(recv, Arr):
+            if name in PRESERVE_METHODS:
+                fl = recv.flags
+                if name == "astype" and c.args and u(c.args[0]) in ("bool", "'bool'", "np.bool_"):
+                    fl = fl | {"bool"}
+                return replace(recv, flags=fl)
+            if name in ("ravel", "flatten"):
+                return self.ravel(recv, self.order_of(c))
+            if name == "reshape":
+                shp = c.args[0] if len(c.args) == 1 else ast.Tuple(elts=[a for a in c.args], ctx=ast.Load())
+                return self.reshape(c, recv, shp, self.order_of(c, 99))
+            if name == "transpose" and not c.args:
+                return replace(recv, axes=tuple(reversed(recv.axes)) if recv.axes is not None else None, ident=None)
+            if name == "sort":
+                ax = kwarg(c, "axis") or (c.args[0] if c.args else None)
+                base = c.func.value  # type: ignore[attr-defined]
+                if isinstance(base, ast.Name):
+                    self.env[base.id] = replace(recv, ident=("sorted_axis", recv.ident, u(ax) if ax is not None else "-1"), vk=recv.vk)
+                return Opaque("none")
+            if name in ("min", "max", "sum", "prod", "mean"):
+                if name == "prod" and recv.val is not None:
+                    return None
+                return None
+            if name in ("tolist",):
+                return None
+            if name in ("squeeze",):
+                return self.f_squeeze(c, [recv])
+            if name in ("all", "any"):
+                return Opaque("boolred")
+            return None
+        if isinstance(recv, Dims):
+            if name == "prod":
+                return Opaque("dimsprod", recv)
+            if name in ("astype", "copy"):
+                return recv
+            return None
+        if isinstance(recv, ListV):
+            if name == "append" and c.args:
+                v = self.on_append(c, self.ev(c.args[0]))
+                if self._loopdepth and self._loopdepth[-1][0] is not None:
+                    recv.template = (self._loopdepth[-1][0], v)
+                elif self._loopdepth:
+                    recv.template = (None, v)
+                else:
+                    recv.items.append(v)
+                return Opaque("none")
+            return None
+        if isinstance(recv, Opaque) and recv.what == "str":
+            return recv
+        if isinstance(recv, Mask):
+            if name in ("all", "any"):
+                return Opaque("boolred", (name, recv))
+            return None
+        return NotImplemented
+
+    def on_append(self, c: ast.Call, v):
+        return v
+
+    # ---- numpy creation
+    def _shape_axes(self, shp) -> Optional[tuple]:
+        v = self.ev(shp) if isinstance(shp, ast.AST) else shp
+        items = v.items if isinstance(v, Tup) else (v,)
+        out = []
+        for it in items:
+            if not isinstance(it, Int):
+                return None
+            out.append(BOT if it.p == 0 else self.space_from_size(it.p))
+        return tuple(out)
+
+    def f_arange(self, c, argv):
+        if len(argv) == 1 and isinstance(argv[0], Int):
+            s_ = self.space_from_size(argv[0].p)
+            return Arr(s_, (s_,), ("arange", argv[0].p), frozenset({"idmap"}), None)
+        if len(argv) in (2, 3) and all(isinstance(a, Int) for a in argv):
+            return Arr(None, None, ("arange3",) + tuple(argv))
+        return None
+
+    def _filled(self, c, argv, flags=()):
+        if not c.args and kwarg(c, "shape") is None:
+            return None
+        axes = self._shape_axes(kwarg(c, "shape") or c.args[0])
+        fl = set(flags)
+        dt = kwarg(c, "dtype") or (c.args[1] if len(c.args) > 1 and call_name(c) != "full" else None)
+        if dt is not None and u(dt) in ("bool", "'bool'", "np.bool_"):
+            fl.add("bool")
+        if axes is None:
+            return None
+        if BOT in axes:
+            return Arr(BOT, axes, None, frozenset(fl))
+        return Arr(None, axes, None, frozenset(fl))
+
+    def f_zeros(self, c, argv):
+        return self._filled(c, argv, ("zeros",))
+
+    def f_ones(self, c, argv):
+        return self._filled(c, argv, ("unsigned",))
+
+    def f_empty(self, c, argv):
+        return self._filled(c, argv)
+
+    def f_full(self, c, argv):
+        return self._filled(c, argv)
+
+    def f_zeros_like(self, c, argv):
+        return Arr(None, argv[0].axes, None, frozenset({"zeros"})) if argv and isinstance(argv[0], Arr) else None
+
+    def f_ones_like(self, c, argv):
+        return Arr(None, argv[0].axes, None, frozenset({"unsigned"})) if argv and isinstance(argv[0], Arr) else None
+
+    f_empty_like = f_zeros_like
+
+    def f_array(self, c, argv):
+        if c.args and isinstance(c.args[0], (ast.List, ast.Tuple)) and not c.args[0].elts:
+            return Arr(BOT, (BOT,), None)
+        if argv and isinstance(argv[0], Int) and argv[0].p == 0:
+            return Arr(None, None, ("scalar0",))
+        if argv and isinstance(argv[0], Arr):
+            return argv[0]
+        if argv and isinstance(argv[0], Tup) and all(isinstance(x, Arr) for x in argv[0].items):
+            return self._stack0(list(argv[0].items))
+        return None
+
+    def f_asarray(self, c, argv):
+        return argv[0] if argv and isinstance(argv[0], (Arr, Mask)) else None
+
+    f_ascontiguousarray = f_asarray
+    f_copy = f_asarray
+
+    def f_atleast_1d(self, c, argv):
+        if argv and isinstance(argv[0], Arr):
+            return replace(argv[0], flags=argv[0].flags - {"maybe0d"})
+        return None
+
+    # ---- selection
+    def _mask_arg(self, v, node):
+        """(axes, key) of a boolean selector"""
+        if isinstance(v, Mask):
+            return v.axes, ("mask", v.key, v.pol)
+        if isinstance(v, Arr) and v.axes is not None:
+            return v.axes, ("truthy", self.ident_of(v, node))
+        return None, None
+
+    def f_where(self, c, argv):
+        if len(argv) != 1:
+            return None
+        if isinstance(argv[0], Arr) and "selector" in argv[0].flags:
+            # a selector parameter is an index array or a boolean mask over the same space: where() gives indices either way
+            key = ("truthy", self.ident_of(argv[0], c.args[0]))
+            return Tup((Arr(argv[0].vk, (("hits", key),), ("where", key), frozenset({"selector"})),))
+        axes, key = self._mask_arg(argv[0], c.args[0])
+        if axes is None:
+            return None
+        if len(axes) == 1:
+            return Tup((Arr(axes[0], (("hits", key),), ("where", key)),))
+        return Tup(tuple(Arr(ax, (("hits", key),), ("where", key, i), frozenset({"rowmajor"})) for i, ax in enumerate(axes)))
+
+    f_nonzero = f_where
+
+    def f_flatnonzero(self, c, argv):
+        t = self.f_where(c, argv)
+        return t.items[0] if isinstance(t, Tup) and len(t.items) == 1 else None
+
+    def f_argwhere(self, c, argv):
+        if len(argv) != 1:
+            return None
+        axes, key = self._mask_arg(argv[0], c.args[0])
+        if axes is None:
+            return None
+        if len(axes) == 1:
+            return Arr(axes[0], (("hits", key), ("pos", sp.Integer(1))), ("where", key), frozenset({"col"}))
+        return Arr(None, (("hits", key), ("pos", sp.Integer(len(axes)))), ("argwhere", key, tuple(axes)))
+
+    def f_squeeze(self, c, argv):
+        v = argv[0] if argv else None
+        if isinstance(v, Tup) and len(v.items) == 1:
+            v = v.items[0]
+        if not isinstance(v, Arr) or kwarg(c, "axis") is not None or len(c.args) > 1:
+            return v if isinstance(v, Arr) else None
+        axes = v.axes
+        fl = set(v.flags)
+        if axes is not None and "col" in fl:
+            axes = axes[:1]
+            fl.discard("col")
+        if axes is None or any(isinstance(a, tuple) and a and a[0] in ("hits", "seq", "sel", "slice", "U") for a in axes):
+            fl.add("maybe0d")
+        return replace(v, axes=axes, flags=frozenset(fl))
+
+    def f_sort(self, c, argv):
+        v = argv[0] if argv else None
+        if not isinstance(v, Arr):
+            return None
+        if "maybe0d" in v.flags:
+            self.need("rank", False, c,
+                      f"`{u(c)[:90]}`: np.squeeze without an axis gives a 0-d array when exactly one element is selected, and np.sort "
+                      f"rejects 0-d input (AxisError)", arg=fmt_val(v))
+        elif v.axes is not None and len(v.axes) == 1:
+            self.need("rank", True, c, "np.sort receives a 1-d array")
+        ax = kwarg(c, "axis")
+        if v.axes is not None and len(v.axes) == 1:
+            idn = ("sorted", self.ident_of(v, c.args[0]))
+            return Arr(v.vk, (("seq", idn),), idn, v.flags - {"maybe0d", "idmap"})
+        return Arr(v.vk, v.axes, ("sorted_axis", v.ident, u(ax) if ax is not None else "-1"))
+
+    def f_unique(self, c, argv):
+        v = argv[0] if argv else None
+        if not isinstance(v, Arr):
+            return None
+        flags = [isinstance(kwarg(c, k), ast.Constant) and kwarg(c, k).value is True  # type: ignore[union-attr]
+                 for k in ("return_index", "return_inverse", "return_counts")]
+        ax = kwarg(c, "axis")
+        st = self.site(c)
+        if ax is not None:
+            self.uniques.append((c, st, "axis"))
+            outs: list = [None] + [None for fl in flags if fl]
+            return Tup(tuple(outs)) if any(flags) else None
+        U = ("U", st)
+        self.uniques.append((c, st, v))
+        vals = Arr(v.vk, (U,), ("umap", st))
+        if not any(flags):
+            return vals
+        outs = [vals]
+        if flags[0]:
+            outs.append(Arr(("flat", v.axes) if v.axes is None or len(v.axes) != 1 else v.axes[0], (U,), ("first", st)))
+        if flags[1]:
+            outs.append(Arr(U, v.axes, ("inv", st)))
+        if flags[2]:
+            outs.append(Arr(None, (U,), ("counts", st)))
+        return Tup(tuple(outs))
+
+    def f_argsort(self, c, argv):
+        v = argv[0] if argv else None
+        if isinstance(v, Arr) and v.axes is not None and len(v.axes) == 1:
+            return Arr(v.axes[0], (("seq", ("argsort", self.ident_of(v, c.args[0]))),), ("argsort", self.ident_of(v, c.args[0])))
+        return None
+
+    # ---- stacking
+    def _seq_items(self, c, argv) -> Optional[list]:
+        if not argv:
+            return None
+        a = argv[0]
+        if isinstance(a, Tup):
+            return list(a.items)
+        if isinstance(a, ListV) and a.template is None:
+            return list(a.items)
+        return None
+
+    def _join_vk(self, items: list):
+        vks = [x.vk for x in items if x.vk != BOT]
+        if not vks:
+            return BOT
+        if all(v == vks[0] for v in vks):
+            return vks[0]
+        return self.vk_join(vks) if self.vk_join is not None else None
+
+    def _cat_last(self, items: list) -> Optional[Arr]:
+        if not all(isinstance(x, Arr) for x in items):
+            return None
+        vk = self._join_vk(items)
+        real = [x for x in items if x.vk != BOT and not (x.axes and x.axes[-1] == BOT)]
+        if not real:
+            return items[0]
+        if any(x.axes is None for x in real):
+            return Arr(vk, None, None)
+        lead = real[0].axes[:-1]
+        if any(x.axes[:-1] != lead for x in real):
+            return Arr(vk, None, None)
+        lastax = real[0].axes[-1] if len(real) == 1 else ("cat", tuple(x.axes[-1] for x in real))
+        fl = frozenset.intersection(*[x.flags & {"signed", "unsigned", "bool"} for x in real])
+        return Arr(vk, tuple(lead) + (lastax,), None, fl)
+
+    def _stack0(self, items: list) -> Optional[Arr]:
+        if not all(isinstance(x, Arr) for x in items):
+            return None
+        vk = self._join_vk(items)
+        real = [x for x in items if x.vk != BOT]
+        if not real or any(x.axes is None for x in real):
+            return Arr(vk, None, None)
+        if all(len(x.axes) == 1 for x in real):
+            ax = real[0].axes[0]
+            if any(self.compat(x.axes[0], ax) is False for x in real):
+                return Arr(vk, None, ("rows", tuple(real)))
+            return Arr(vk, (("pos", sp.Integer(len(real))), ax), ("rows", tuple(real)))
+        if all(len(x.axes) == 2 for x in items if x.axes is not None):
+            last = real[0].axes[-1]
+            if any(x.axes[-1] != last for x in real):
+                return Arr(vk, None, None)
+            tot = sp.Integer(0)
+            for x in items:
+                if x.axes is not None:
+                    z = size_of(x.axes[0])
+                    if z is None:
+                        return Arr(vk, None, None)
+                    tot += z
+            return Arr(vk, (("pos", tot), last), None)
+        return Arr(vk, None, None)
+
+    def f_hstack(self, c, argv):
+        it = self._seq_items(c, argv)
+        return self._cat_last(it) if it is not None else None
+
+    def f_concatenate(self, c, argv):
+        ax = kwarg(c, "axis") or (c.args[1] if len(c.args) > 1 else None)
+        it = self._seq_items(c, argv)
+        if it is None:
+            return None
+        if ax is None and all(isinstance(x, Arr) and x.axes is not None and len(x.axes) == 1 for x in it if isinstance(x, Arr) and x.vk != BOT):
+            return self._cat_last(it)
+        return None
+
+    def f_append(self, c, argv):
+        if len(argv) >= 2 and kwarg(c, "axis") is None and all(isinstance(x, (Arr, Int)) for x in argv[:2]):
+            items = [x if isinstance(x, Arr) else Arr(x.kind, (("pos", sp.Integer(1)),), None) for x in argv[:2]]
+            return self._cat_last(items)
+        return None
+
+    def f_vstack(self, c, argv):
+        it = self._seq_items(c, argv)
+        self._last_vstack = (c, it)
+        return self._stack0(it) if it is not None else None
+
+    def f_tile(self, c, argv):
+        if len(argv) != 2 or not isinstance(argv[0], Arr) or argv[0].axes is None or len(argv[0].axes) != 1:
+            return None
+        a, reps = argv
+        if isinstance(reps, Int):
+            return Arr(a.vk, (flat_prod([("pos", reps.p), a.axes[0]]),), ("tile", a.ident, reps.p), a.flags & {"idmap"})
+        if isinstance(reps, Tup) and len(reps.items) == 2 and all(isinstance(x, Int) for x in reps.items) and reps.items[1].p == 1:
+            return Arr(a.vk, (("pos", reps.items[0].p), a.axes[0]), ("tile2", a.ident, reps.items[0].p), a.flags & {"idmap"})
+        return None
+
+    def f_repeat(self, c, argv):
+        if len(argv) != 2 or not isinstance(argv[0], Arr) or argv[0].axes is None or len(argv[0].axes) != 1 or kwarg(c, "axis") is not None:
+            return None
+        a, reps = argv
+        if isinstance(reps, Int):
+            return Arr(a.vk, (flat_prod([a.axes[0], ("pos", reps.p)]),), ("repeat", a.ident, reps.p), a.flags & {"idmap"})
+        return None
+
+    # ---- layout
+    def ravel(self, v: Arr, order: str):
+        if v.axes is None or order == "?":
+            return Arr(v.vk, None, None)
+        if len(v.axes) == 1:
+            return replace(v, flags=v.flags - {"maybe0d", "col"})
+        if "col" in v.flags and len(v.axes) == 2:
+            return replace(v, axes=v.axes[:1], flags=v.flags - {"col", "maybe0d"})
+        axes = v.axes if order == "C" else tuple(reversed(v.axes))
+        return Arr(v.vk, (flat_prod(axes),), ("ravel", v.ident, order) if v.ident is not None else None,
+                   v.flags & {"signed", "unsigned", "idmap"}, v.val)
+
+    def f_ravel(self, c, argv):
+        return self.ravel(argv[0], self.order_of(c, 1)) if argv and isinstance(argv[0], Arr) else None
+
+    def reshape(self, c: ast.AST, v: Arr, shp: ast.expr, order: str):
+        tv = self.ev(shp)
+        items = list(tv.items) if isinstance(tv, Tup) else [tv]
+        if order == "?" or not all(isinstance(x, Int) for x in items):
+            return Arr(v.vk, None, None)
+        sizes = [x.p for x in items]
+        # per-column slots of a compressed matrix:  M.indices.reshape((k, n_cols), order='F')
+        if v.axes is not None and len(v.axes) == 1 and isinstance(v.axes[0], tuple) and v.axes[0][0] == "ent" and len(sizes) == 2 and order == "F":
+            m = self.mats.get(v.axes[0][1])
+            if m is not None and m.fmt in ("csc", "csr"):
+                line = m.ck if m.fmt == "csc" else m.rk
+                if sizes[1] == -1 or _z(sizes[1] - size_of(line)):
+                    k = sizes[0] if sizes[0] != -1 else S(f"slots{self.site(c)}")
+                    return Arr(v.vk, (("pos", k), line), ("slots", v.ident))
+            return Arr(v.vk, None, None)
+        if v.axes is None:
+            return Arr(v.vk, None, None)
+        if len(sizes) == 1 and sizes[0] == -1:
+            return self.ravel(v, order)
+        src = list(v.axes) if order == "C" else list(reversed(v.axes))
+        comps: list = []
+        for a in src:
+            comps.extend(a[1] if isinstance(a, tuple) and a[0] == "prod" else [a])
+        tgt = sizes if order == "C" else list(reversed(sizes))
+        out, i = [], 0
+        for k, sz in enumerate(tgt):
+            grp = []
+            if sz == -1:
+                rest_needed = len(tgt) - k - 1
+                if rest_needed:
+                    return Arr(v.vk, None, None)
+                grp = comps[i:]
+                i = len(comps)
+            else:
+                acc = sp.Integer(1)
+                while i < len(comps) and (not _z(acc - sz)):
+                    z = size_of(comps[i])
+                    if z is None:
+                        return Arr(v.vk, None, None)
+                    acc = acc * z
+                    grp.append(comps[i])
+                    i += 1
+                if (not _z(acc - sz)):
+                    return Arr(v.vk, None, None)
+            if not grp:
+                grp = [("pos", sp.Integer(1))]
+            out.append(flat_prod(grp))
+        if i != len(comps):
+            return Arr(v.vk, None, None)
+        axes = tuple(out) if order == "C" else tuple(reversed(out))
+        return Arr(v.vk, axes, ("reshape", v.ident, tuple(str(s_) for s_ in sizes), order) if v.ident is not None else None,
+                   v.flags & {"signed", "unsigned", "idmap"}, v.val)
+
+    def f_reshape(self, c, argv):
+        if argv and isinstance(argv[0], Arr) and len(c.args) >= 2:
+            return self.reshape(c, argv[0], c.args[1], self.order_of(c, 2))
+        return None
+
+    def f_swapaxes(self, c, argv):
+        if len(argv) == 3 and isinstance(argv[0], Arr) and argv[0].axes is not None and all(isinstance(x, Int) and x.p.is_Integer for x in argv[1:]):
+            ax = list(argv[0].axes)
+            i, j = int(argv[1].p), int(argv[2].p)
+            if max(i, j) < len(ax):
+                ax[i], ax[j] = ax[j], ax[i]
+                return replace(argv[0], axes=tuple(ax), ident=None)
+        return None
+
+    def f_transpose(self, c, argv):
+        if len(argv) == 1 and isinstance(argv[0], Arr) and argv[0].axes is not None:
+            return replace(argv[0], axes=tuple(reversed(argv[0].axes)), ident=None)
+        if len(argv) == 2 and isinstance(argv[0], Arr) and argv[0].axes is not None and isinstance(argv[1], Tup) \
+                and all(isinstance(x, Int) and x.p.is_Integer for x in argv[1].items) and len(argv[1].items) == len(argv[0].axes):
+            return replace(argv[0], axes=tuple(argv[0].axes[int(x.p)] for x in argv[1].items), ident=None)
+        if len(argv) == 1 and isinstance(argv[0], Mat):
+            return self.transpose(argv[0])
+        return None
+
+    def f_meshgrid(self, c, argv):
+        ix = kwarg(c, "indexing")
+        mode = "xy" if ix is None else (ix.value if isinstance(ix, ast.Constant) else "?")
+        if mode not in ("xy", "ij") or not all(isinstance(a, Arr) and a.axes is not None and len(a.axes) == 1 for a in argv) or len(argv) < 2:
+            return None
+        axs = [a.axes[0] for a in argv]
+        if mode == "xy":
+            axs[0], axs[1] = axs[1], axs[0]
+        return Tup(tuple(Arr(a.vk, tuple(axs), None, frozenset(), a.val) for a in argv))
+
+    def f_ravel_multi_index(self, c, argv):
+        if argv and isinstance(argv[0], Arr):
+            return Arr(None, None, ("rmi", argv[0].ident, u(kwarg(c, "dims") or (c.args[1] if len(c.args) > 1 else c))))
+        return None
+
+    def f_unravel_index(self, c, argv):
+        if len(argv) == 2 and isinstance(argv[0], Int):
+            return Opaque("unravel", (argv[0], argv[1], c.args[1]))
+        return None
+
+    # ---- elementwise
+    def _same(self, c, argv):
+        v = argv[0] if argv else None
+        if isinstance(v, Arr):
+            return Arr(None, v.axes, None, v.flags & {"unsigned"}, None)
+        return v if isinstance(v, Dims) else None
+
+    def f_floor(self, c, argv):
+        v = argv[0] if argv else None
+        if isinstance(v, Dims):
+            return Dims(lambda i, _v=v: sp.floor(_v.base(i)), f"floor({v.name})")
+        if isinstance(v, Int):
+            return Int(sp.floor(v.p))
+        return self._same(c, argv)
+
+    def f_ceil(self, c, argv):
+        v = argv[0] if argv else None
+        if isinstance(v, Dims):
+            return Dims(lambda i, _v=v: sp.ceiling(_v.base(i)), f"ceil({v.name})")
+        if isinstance(v, Int):
+            return Int(sp.ceiling(v.p))
+        return self._same(c, argv)
+
+    def f_abs(self, c, argv):
+        v = argv[0] if argv else None
+        if isinstance(v, Mat):
+            m = replace(v, signed=False, alias="fresh", mid=("abs", v.mid), fmt=v.fmt)
+            self.mats[m.mid] = replace(m)
+            # abs keeps the sparsity structure: same entries space as the argument
+            self.mats[m.mid] = m
+            return m
+        if isinstance(v, Arr):
+            return Arr(None, v.axes, ("abs", v.ident) if v.ident else None, (v.flags - {"signed"}) | {"unsigned"})
+        return None
+
+    f_absolute = f_abs
+
+    def f_cumsum(self, c, argv):
+        v = argv[0] if argv else None
+        return Arr(None, v.axes, ("cumsum", v.ident) if v.ident else None) if isinstance(v, Arr) else None
+
+    def f_diff(self, c, argv):
+        v = argv[0] if argv else None
+        if not isinstance(v, Arr) or v.axes is None:
+            return None
+        ax = self.ev(kwarg(c, "axis") or (c.args[2] if len(c.args) > 2 else None))
+        i = int(ax.p) if isinstance(ax, Int) and ax.p.is_Integer else -1
+        axes = list(v.axes)
+        z = size_of(axes[i])
+        axes[i] = ("pos", z - 1) if z is not None and axes[i][0] == "pos" else ("diff", axes[i])
+        return Arr(None, tuple(axes), ("diff", v.ident, i))
+
+    def f_logical_and(self, c, argv):
+        if len(argv) == 2 and all(isinstance(a, Mask) for a in argv):
+            return Mask(argv[0].axes if argv[0].axes == argv[1].axes else self.broadcast(argv[0].axes, argv[1].axes), u(c))
+        return None
+
+    f_logical_or = f_logical_and
+
+    def f_logical_not(self, c, argv):
+        v = argv[0] if argv else None
+        return Mask(v.axes, v.key, not v.pol) if isinstance(v, Mask) else None
+
+    def f_all(self, c, argv):
+        v = argv[0] if argv else None
+        if isinstance(v, Mask):
+            ax = self.ev(kwarg(c, "axis") or (c.args[1] if len(c.args) > 1 else None))
+            if isinstance(ax, Int) and ax.p.is_Integer and v.axes is not None:
+                axes = tuple(a for k, a in enumerate(v.axes) if k != int(ax.p) % len(v.axes))
+                return Mask(axes, u(c))
+            return Opaque("boolred", (call_name(c), v))
+        return None
+
+    f_any = f_all
+
+    def f_prod(self, c, argv):
+        v = argv[0] if argv else None
+        if isinstance(v, Tup) and all(isinstance(x, Int) for x in v.items):
+            r = sp.Integer(1)
+            for x in v.items:
+                r = r * x.p
+            return Int(r)
+        if isinstance(v, Dims):
+            return Opaque("dimsprod", v)
+        return None
+
+    def f_len(self, c, argv):
+        v = argv[0] if argv else None
+        if isinstance(v, Arr) and v.axes:
+            return self.int_of_space(v.axes[0])
+        return None
+
+    def f_int(self, c, argv):
+        return argv[0] if argv and isinstance(argv[0], Int) else None
+
+    def f_hasattr(self, c, argv):
+        return Opaque("hasattr", (argv[0] if argv else None, c.args[1].value if len(c.args) > 1 and isinstance(c.args[1], ast.Constant) else None))
+
+    def f_isinstance(self, c, argv):
+        return Opaque("isinstance")
+
+    # ---- sparse constructors
+    def _sparse_ctor(self, c: ast.Call, argv, fmt: str):
+        shape = self.ev(kwarg(c, "shape") or (c.args[1] if len(c.args) > 1 else None))
+        a0 = argv[0] if argv else None
+        if isinstance(a0, Mat):
+            if fmt == "coo":
+                return replace(a0, fmt=None, mid=("conv", a0.mid, "coo"))
+            if a0.fmt == fmt:
+                return replace(a0, alias="fresh")
+            m = Mat(a0.rk, a0.ck, a0.signed, fmt, ("conv", a0.mid, fmt))
+            self.mats[m.mid] = m
+            return m
+        if isinstance(a0, Mask) and a0.axes is not None and len(a0.axes) == 2:
+            return None
+        if not isinstance(a0, Tup):
+            self.ctors.append((c, fmt, None, {"kind": "other"}))
+            return None
+
+        def sign_of(dv):
+            if isinstance(dv, Arr):
+                if "unsigned" in dv.flags or "bool" in dv.flags:
+                    return False
+                if "signed" in dv.flags:
+                    return True
+            return None
+        mid = ("ctor", self.site(c))
+        if len(a0.items) == 3 and fmt in ("csc", "csr"):
+            data, ind, ptr = a0.items
+            own = None
+            if isinstance(ptr, Arr) and isinstance(ptr.ident, tuple) and ptr.ident and ptr.ident[0] == "indptr":
+                own = self.mats.get(ptr.ident[1])
+            facts = {"kind": "compressed", "data": data, "indices": ind, "indptr": ptr, "owner": own, "shape": shape}
+            rk = ck = None
+            if isinstance(ind, Arr):
+                if fmt == "csc":
+                    rk = ind.vk
+                    ck = (own.ck if own is not None and own.fmt == "csc" else None)
+                else:
+                    ck = ind.vk
+                    rk = (own.rk if own is not None and own.fmt == "csr" else None)
+            m = Mat(rk, ck, sign_of(data), fmt, mid)
+            if own is not None and isinstance(ind, Arr) and ind.axes and ind.axes[-1] == ("ent", own.mid):
+                # same sparsity structure as the owner: entries coincide
+                m = replace(m, mid=("like", own.mid, self.site(c)))
+                self.ent_alias = getattr(self, "ent_alias", {})
+                self.ent_alias[m.mid] = own.mid
+            self.mats[m.mid] = m
+            self.ctors.append((c, fmt, m, facts))
+            return m
+        if len(a0.items) == 2 and isinstance(a0.items[1], Tup) and len(a0.items[1].items) == 2:
+            data, (rows, cols) = a0.items[0], a0.items[1].items
+            facts = {"kind": "triplet", "data": data, "rows": rows, "cols": cols, "shape": shape}
+            m = Mat(rows.vk if isinstance(rows, Arr) else None, cols.vk if isinstance(cols, Arr) else None, sign_of(data),
+                    fmt if fmt != "coo" else None, mid)
+            self.mats[m.mid] = m
+            self.ctors.append((c, fmt, m, facts))
+            return m
+        self.ctors.append((c, fmt, None, {"kind": "other"}))
+        return None
+
+    def f_csc_matrix(self, c, argv):
+        return self._sparse_ctor(c, argv, "csc")
+
+    def f_csr_matrix(self, c, argv):
+        return self._sparse_ctor(c, argv, "csr")
+
+    def f_coo_matrix(self, c, argv):
+        return self._sparse_ctor(c, argv, "coo")
+
+    f_csc_array, f_csr_array, f_coo_array = f_csc_matrix, f_csr_matrix, f_coo_matrix
+
+    def f_identity(self, c, argv):
+        if argv and isinstance(argv[0], Int):
+            s_ = self.space_from_size(argv[0].p)
+            fm = kwarg(c, "format")
+            m = Mat(s_, s_, False, fm.value if isinstance(fm, ast.Constant) else None, ("eye", self.site(c)))
+            self.mats[m.mid] = m
+            return m
+        return None
+
+    # ---- porepy helpers (trusted conventions, see META)
+    def f_slice_sparse_matrix(self, c, argv):
+        if len(argv) < 2 or not isinstance(argv[0], Mat):
+            return None
+        A, iv = argv[0], argv[1]
+        if A.fmt not in ("csc", "csr"):
+            return None
+        idn = self.ident_of(iv, c.args[1])
+        if A.fmt == "csc":
+            self.check_index(c, A, A.ck, iv)
+            m = Mat(A.rk, ("sel", idn), A.signed, "csc", ("cols", A.mid, idn))
+        else:
+            self.check_index(c, A, A.rk, iv)
+            m = Mat(("sel", idn), A.ck, A.signed, "csr", ("rows", A.mid, idn))
+        self.mats[m.mid] = m
+        return m
+
+    def f_rldecode(self, c, argv):
+        if len(argv) == 2 and isinstance(argv[0], Arr):
+            return Arr(argv[0].vk, (("rld", self.site(c)),), None)
+        return None
+
+    def f_sparse_array_to_row_col_data(self, c, argv):
+        if argv and isinstance(argv[0], Mat):
+            m = argv[0]
+            ent = ("ent", ("coo", m.mid))
+            return Tup((Arr(m.rk, (ent,), ("row", m.mid)), Arr(m.ck, (ent,), ("col", m.mid)),
+                        Arr(None, (ent,), ("data", m.mid), frozenset({"signed"} if m.signed else set()))))
+        return None
+
+    f_find = f_sparse_array_to_row_col_data
+
+    def f_expand_indices_nd(self, c, argv):
+        if len(argv) >= 2 and isinstance(argv[0], Arr) and isinstance(argv[1], Int) and argv[0].axes is not None and len(argv[0].axes) == 1:
+            a, nd = argv[0], argv[1].p
+            vk = flat_prod([a.vk, ("pos", nd)]) if a.vk is not None else None
+            return Arr(vk, (flat_prod([a.axes[0], ("pos", nd)]),), ("expand", a.ident, str(nd)))
+        return None
+
+    def _new_grid(self, c: ast.Call, argv, params: list[str], kind: str):
+        bound = {}
+        for nm, (a, v) in zip(params, zip(c.args, argv)):
+            bound[nm] = (a, v)
+        for k in c.keywords:
+            if k.arg is not None:
+                bound[k.arg] = (k.value, self.ev(k.value))
+        g = GridV(f"h{self.site(c)}")
+        sp_ = {}
+        fn_, cf_ = bound.get("face_nodes", (None, None))[1], bound.get("cell_faces", (None, None))[1]
+        if isinstance(fn_, Mat):
+            sp_["N"] = fn_.rk
+            sp_["F"] = fn_.ck
+        if isinstance(cf_, Mat):
+            sp_.setdefault("F", cf_.rk)
+            sp_["C"] = cf_.ck
+        self.grid_spaces[g.name] = {k: v for k, v in sp_.items() if v is not None}
+        self.grids.append((c, g, bound, kind))
+        return g
+
+    def f_Grid(self, c, argv):
+        return self._new_grid(c, argv, GRID_CTOR_PARAMS, "Grid")
+
+    def f_PointGrid(self, c, argv):
+        return self._new_grid(c, argv, ["pt", "name"], "PointGrid")
+
+    def f_TensorGrid(self, c, argv):
+        return self._new_grid(c, argv, ["x", "y", "z", "name"], "TensorGrid")
+
+    def f_TriangleGrid(self, c, argv):
+        return self._new_grid(c, argv, ["p", "tri", "name"], "TriangleGrid")
+
+
+def subst_val(v, sym, by):
+    """value with the loop symbol replaced (list templates instantiated at a constant position)"""
+    if sym is None or v is None:
+        return v
+    def sx(x):
+        if isinstance(x, sp.Basic):
+            return x.subs(sym, by)
+        if isinstance(x, tuple):
+            return tuple(sx(y) for y in x)
+        return x
+    if isinstance(v, Int):
+        return Int(sx(v.p), sx(v.kind))
+    if isinstance(v, Arr):
+        return Arr(sx(v.vk), sx(v.axes), sx(v.ident), v.flags, sx(v.val) if v.val is not None else None)
+    return v
+
+
+def view_of(mod, qual: str, inline: bool = True) -> ast.FunctionDef:
+    """normalised copy of a module-level function: one level of private same-module helpers inlined (c34.normalise),
+    public functions kept atomic"""
+    fn = mod.func(qual)
+    if not inline:
+        return copy.deepcopy(fn)
+    public = {st.name for st in mod.tree.body if isinstance(st, ast.FunctionDef) and not st.name.startswith("_")}
+    return normalise(mod, fn, cls=None, exclude=frozenset(public))
+
+
+# =====================================================================================
+#  C22 rules
+# =====================================================================================
+
+META = {
+    "explanation": (
+        "Abstract interpretation of grids/partition.py over index spaces (no execution). "
+        "R1 extract_subgrid (private helpers inlined): the cell-face sub-matrix is g.cell_faces with columns = the requested cells "
+        "(one and the same ordered selection after the bool->index and sort normalisations) and rows = the unique faces of those "
+        "columns; the face-node sub-matrix is g.face_nodes with columns = that same unique-face array and rows = its unique nodes; the "
+        "new Grid receives nodes = g.nodes[:, unique nodes] and the two sub-matrices in the node/face/cell slots so that all three "
+        "numberings agree; every geometric field copied to the child is the SAME field of the parent gathered along its last axis "
+        "with the selection that defines the child's numbering of that entity kind (cells: the requested cells in the order used for "
+        "the matrix columns; faces / nodes: the returned maps); parent_cell_ind is that cell selection; the returned maps are the row "
+        "selections of the sub-matrices, faces second, nodes third. "
+        "R2 _extract_submatrix: the format is established before compressed arrays are read; data, indices and indptr of the result "
+        "come from one sliced matrix; the new indices are the INVERSE map of np.unique applied to the sliced indices and the returned "
+        "map is the unique-values array of the same call; shape = (unique rows, selected columns). "
+        "R3 face-extraction siblings (2d, 3d, 1d): columns of g.face_nodes selected by the given faces, child nodes = "
+        "g.nodes[:, unique nodes], child cell_volumes/cell_centers taken from the parent's face_areas/face_centers at the given faces, "
+        "parent_face_ind and the second returned value are the given faces, the third is the node map. "
+        "R4 partition_structured, specialised per grid dimension d in the set supported by TensorGrid (read from structured.py): the "
+        "returned array is bound on the path taken for d (today no arm exists for d=1); the per-direction coarse index takes at most "
+        "coarse_dims[i] values - decided symbolically for the accepted idioms (slice to coarse_dims[i], clamp, floor(j*C/F)) and "
+        "REFUTED with a witness (F, C) computed from the extracted closed form otherwise (today: arange(0,F,floor(F/C)) truncated by "
+        "at most one entry); the flat coarse id is the mixed-radix number sum_k J_k * prod_{j<k} coarse_dims[j] (sympy identity on the "
+        "extracted formula); the array is flattened x-fastest (meshgrid/swapaxes/ravel axis calculus) as TensorGrid numbers its cells. "
+        "R5 partition_coordinates: trip count, unravel_index dims and the box width all use ONE coarse-dimension vector, the stored id "
+        "is the loop index, the boxes are half-open [lower, upper) with upper(ind) == lower(ind+1) (sympy). "
+        "R6 producer/consumer agreement inside the module: a function all of whose returns are k-tuples is never used as a truth value "
+        "and is unpacked into k targets (today `if not grid_is_connected(..)` tests a non-empty tuple: the connectivity check of "
+        "partition_coordinates can never fire); partition_grid appends grid / face map / node map to the lists it returns in that order. "
+        "R7 overlap: each criterion arm loops exactly num_layers times; entity and cell activations are typed (matrix column space = "
+        "space of the multiplied indicator, stores use indices of the stored array's space); a `> 0` threshold is only applied to "
+        "products of sign-free matrices; the returned index set is a "
+        "proper 1-d array for every size (today np.sort(np.squeeze(argwhere)) fails for a single cell). "
+        "R8 grid_is_connected restricts cell_connection_map with the same selection on rows and columns. "
+        "R9 subgrid_to_grid_mapping: row/column index arrays and the shape slots of the four maps agree in space and size. "
+        "Not decided: monotone growth of the overlap (a graph fact: every cell touches one of its own nodes/faces), values of recomputed geometry, the incidence signs/orientation built by the face-extraction helpers, "
+        "metis, connectedness of partitions, floating point coverage of the coordinate boxes, determine_coarse_dimensions."),
+    "rule_text": "one obligation per typed gather/product/constructor/field copy/returned map/arm/dimension/consumer site",
+    "trusted_base": ["python ast", "sa.core", "sa.rules.c34.normalise (one level of private helper inlining)", "sympy as term normaliser",
+                     "Grid: cell_faces is faces x cells (csc, signed), face_nodes nodes x faces (csc), cell_nodes() nodes x cells (csc); "
+                     "field table nodes/cell_centers/face_centers/face_normals (3 x n), cell_volumes/face_areas (n)",
+                     "slice_sparse_matrix(A, ind) = A[:, ind] (csc) in the order of ind (C35)",
+                     "numpy: unique/where/argwhere/squeeze/sort/meshgrid/swapaxes/ravel/reshape/tile/repeat semantics (tables in KI)",
+                     "TensorGrid numbers cells x-fastest"],
+    "assumptions": ["the requested cells `c` are an index array or a boolean mask over the cells",
+                    "witness search for R4 evaluates the extracted closed form count(F, C) for 1 <= C <= F <= 24 (a witness refutes; "
+                    "absence of a witness is never taken as proof)"],
+    "technique": "index-space type inference with contradiction detection (abstract interpretation over AST) + extracted-formula "
+                 "identities (sympy) + dimension-specialised path analysis",
+}
+MIN_INSTANCES = {"R1": 20, "R2": 6, "R3": 10, "R4": 7, "R5": 5, "R6": 6, "R7": 12, "R8": 3, "R9": 12}
+
+
+def _reporter(ctx: Ctx, rule: str, mod, q: str):
+    def report(kind, ok, node, msg, facts):
+        facts = dict(facts or {})
+        cons = facts.pop("construct", None) or ("np.sort receives an array that is 1-d for every selection size" if kind == "rank" else None)
+        ctx.check(rule, ok, mod, q, node, msg if not ok else f"{kind}: {msg}", construct=cons,
+                  facts={"kind": kind, **{k: str(v) for k, v in facts.items()}})
+    return report
+
+
+def origin(mid) -> Any:
+    """the grid matrix a derived matrix id comes from (through slicing, conversion, rebuilt triples)"""
+    while isinstance(mid, tuple) and mid and mid[0] in ("cols", "rows", "conv", "like", "T", "abs", "scaled", "ctor_from"):
+        mid = mid[1]
+    return mid
+
+
+def root_param(ident, phi_src: Optional[dict] = None, depth: int = 12) -> Optional[str]:
+    """name of the parameter an ordered selection is derived from (through where / sort / joins of such)"""
+    if not isinstance(ident, tuple) or not ident or depth <= 0:
+        return None
+    if ident[0] == "param":
+        return ident[1]
+    if ident[0] in ("sorted", "where", "truthy", "mask"):
+        return root_param(ident[1], phi_src, depth - 1)
+    if ident[0] == "phi" and phi_src and ident in phi_src:
+        roots = {root_param(x, phi_src, depth - 1) for x in phi_src[ident]}
+        return roots.pop() if len(roots) == 1 else None
+    return None
+
+
+def _main_return(ki: KI, arity: int):
+    rets = [(s, v) for s, v in ki.returns if isinstance(v, Tup) and len(v.items) == arity and isinstance(v.items[0], GridV)]
+    return rets[0] if len(rets) == 1 else None
+
+
+def _ctor_of(ki: KI, g: GridV):
+    for c, gv, bound, kind in ki.grids:
+        if gv == g:
+            return c, bound, kind
+    return None
+
+
+def _compressed_lockstep(ctx: Ctx, rule: str, mod, q: str, ki: KI, want_inverse: bool = True) -> int:
+    """every (data, indices, indptr) constructor: all three from one matrix; indices = inverse map of unique(sliced.indices)"""
+    n = 0
+    for c, fmt, m, facts in ki.ctors:
+        if facts.get("kind") != "compressed":
+            continue
+        data, ind, ptr, own = facts["data"], facts["indices"], facts["indptr"], facts["owner"]
+        if own is None or not isinstance(ind, Arr) or not isinstance(data, Arr):
+            raise Undecided(f"{mod.rel}:{q}: cannot type the compressed constructor `{u(c)[:80]}`")
+        ent = ("ent", own.mid)
+        n += 1
+        ok_l = bool(data.axes and ind.axes and data.axes[-1] == ent and ind.axes[-1] == ent and fmt == own.fmt)
+        ctx.check(rule, ok_l, mod, q, c,
+                  f"data, indices and indptr of the sub-matrix must come from one and the same sliced {own.fmt} matrix "
+                  f"(data on {fmt_space(last_axis(data))}, indices on {fmt_space(last_axis(ind))}, pointer of {fmt_ident(own.mid)}, format {fmt})",
+                  construct="sub-matrix triple from one sliced matrix")
+        if want_inverse:
+            st = ind.ident[1] if isinstance(ind.ident, tuple) and ind.ident[0] == "inv" else None
+            src = None
+            for uc, s_, arg in ki.uniques:
+                if s_ == st and isinstance(arg, Arr):
+                    src = arg.ident
+            ok_i = st is not None and src == ("indices", own.mid)
+            ctx.check(rule, ok_i, mod, q, c,
+                      "the row numbers of the sub-matrix must be the inverse map of np.unique applied to the sliced matrix' own indices "
+                      f"(found indices = {fmt_ident(ind.ident)})", construct="sub-matrix indices = inverse map of unique(sliced indices)",
+                      facts={"indices": fmt_ident(ind.ident)})
+            shp = facts.get("shape")
+            if isinstance(shp, Tup) and len(shp.items) == 2 and all(isinstance(x, Int) for x in shp.items) and st is not None:
+                line = own.ck if fmt == "csc" else own.rk
+                want = (size_of(("U", st)), size_of(line)) if fmt == "csc" else (size_of(line), size_of(("U", st)))
+                ok_s = all(_z(a.p - b) for a, b in zip(shp.items, want))
+                ctx.check(rule, ok_s, mod, q, c, f"shape of the sub-matrix must be (unique rows, selected columns); found {[str(x.p) for x in shp.items]}",
+                          construct="sub-matrix shape")
+    return n
+
+
+def rule_extract_subgrid(ctx: Ctx, mod) -> None:
+    q = "extract_subgrid"
+    fn = view_of(mod, q)
+    params = [a.arg for a in fn.args.args]
+    if len(params) < 2:
+        raise AnchorError(f"{PART}:{q}: signature changed ({params})")
+    gname, cname = params[0], params[1]
+    ki = KI(fn, f"{PART}:{q}", _reporter(ctx, "R1", mod, q))
+    ki.env[gname] = GridV(gname)
+    ki.env[cname] = Arr(E(gname, "C"), (("seq", ("param", cname)),), ("param", cname), frozenset({"selector"}))
+    ki.run(fn.body)
+    mr = _main_return(ki, 3)
+    if mr is None:
+        raise Undecided(f"{PART}:{q}: no single `return grid, face map, node map` could be typed")
+    rs, rv = mr
+    h = rv.items[0]
+    cb = _ctor_of(ki, h)
+    if cb is None or cb[2] != "Grid":
+        raise Undecided(f"{PART}:{q}: the returned grid is not built by pp.Grid(...) in this function")
+    cnode, bound, _ = cb
+    fnm, cfm, nodes = (bound.get(k, (None, None))[1] for k in ("face_nodes", "cell_faces", "nodes"))
+    if not (isinstance(fnm, Mat) and isinstance(cfm, Mat)):
+        raise Undecided(f"{PART}:{q}: the matrices passed to pp.Grid could not be typed")
+    chk = lambda ok, node, msg, cons, **f: ctx.check("R1", bool(ok), mod, q, node, msg, construct=cons, facts={k: str(v) for k, v in f.items()})
+    chk(origin(cfm.mid) == ("cf", gname) and cfm.signed is not False, cnode,
+        f"the cell_faces slot of the new grid must receive a column selection of {gname}.cell_faces (origin {fmt_ident(origin(cfm.mid))})",
+        "Grid(cell_faces=...) derives from parent.cell_faces")
+    chk(origin(fnm.mid) == ("fn", gname), cnode,
+        f"the face_nodes slot of the new grid must receive a column selection of {gname}.face_nodes (origin {fmt_ident(origin(fnm.mid))})",
+        "Grid(face_nodes=...) derives from parent.face_nodes")
+    csel = cfm.ck[1] if isinstance(cfm.ck, tuple) and cfm.ck[0] == "sel" else None
+    chk(csel is not None and root_param(csel, ki.phi_src) == cname, cnode,
+        f"the columns of the cell-face sub-matrix must be the requested cells `{cname}` (found {fmt_space(cfm.ck)})",
+        "columns of the cell-face sub-matrix = requested cells")
+    chk(canon_space(fnm.ck) == canon_space(cfm.rk), cnode,
+        f"faces of the child: the face-node sub-matrix has its columns on {fmt_space(canon_space(fnm.ck))} but the cell-face sub-matrix has "
+        f"its rows on {fmt_space(canon_space(cfm.rk))}; both must be the unique faces of the requested cells (same np.unique result)",
+        "columns of face_nodes sub-matrix = rows of cell_faces sub-matrix")
+    ok_nodes = isinstance(nodes, Arr) and isinstance(nodes.ident, tuple) and nodes.ident[:2] == ("gather", ("field", gname, "nodes")) \
+        and nodes.axes is not None and canon_space(nodes.axes[-1]) == canon_space(fnm.rk)
+    chk(ok_nodes, cnode, f"nodes of the child must be {gname}.nodes[:, unique nodes] with the row selection of the face-node sub-matrix "
+        f"(found {fmt_val(nodes)})", "Grid(nodes=...) = parent.nodes gathered with the rows of the face-node sub-matrix")
+    spaces = {"N": canon_space(fnm.rk), "F": canon_space(cfm.rk), "C": canon_space(cfm.ck)}
+    # copied fields
+    table = {**{k: (v, 2) for k, v in GRID_FIELDS2.items()}, **{k: (v, 1) for k, v in GRID_FIELDS1.items()}}
+    for s, recv, attr, val in ki.attr_stores:
+        if recv != h:
+            continue
+        if attr in table:
+            K, rank = table[attr]
+            if not isinstance(val, Arr) or val.axes is None:
+                raise Undecided(f"{PART}:{q}: cannot type the value stored into .{attr} [{u(s)[:80]}]")
+            src_ok = isinstance(val.ident, tuple) and val.ident[:2] == ("gather", ("field", gname, attr))
+            chk(src_ok, s, f"child.{attr} must be a gather of the parent's own {attr} (found {fmt_ident(val.ident)})",
+                f"child.{attr} copied from parent.{attr}")
+            chk(len(val.axes) == rank and canon_space(val.axes[-1]) == spaces[K], s,
+                f"child.{attr} must be numbered like the child's {fmt_space(E('child', K))}: its last axis lives on {fmt_space(canon_space(val.axes[-1]))}, "
+                f"the child's {dict(C='cells', F='faces', N='nodes')[K]} are {fmt_space(spaces[K])} (a different order or selection shows for unsorted "
+                f"or non-trivial requests only)", f"child.{attr} uses the selection that numbers the child's {dict(C='cells', F='faces', N='nodes')[K]}",
+                axis=fmt_space(val.axes[-1]))
+        elif attr == "parent_cell_ind":
+            ok = isinstance(val, Arr) and val.vk == E(gname, "C") and val.ident is not None and canon_space(("sel", val.ident)) == spaces["C"]
+            chk(ok, s, f"parent_cell_ind must be the requested cells in the order used for the columns of the cell-face sub-matrix "
+                f"(found {fmt_val(val)} / {fmt_ident(getattr(val, 'ident', None))}, columns {fmt_space(spaces['C'])})",
+                "parent_cell_ind = cell selection used for the sub-matrix")
+    for k, K, what in ((1, "F", "faces"), (2, "N", "nodes")):
+        v = rv.items[k]
+        ok = isinstance(v, Arr) and v.vk == E(gname, K) and isinstance(v.ident, tuple) and v.ident[0] == "umap" and ("U", v.ident[1]) == spaces[K]
+        chk(ok, rs, f"returned value {k} must be the array of unique {what} that numbers the child's {what} (global index of child {what[:-1]} i); "
+            f"found {fmt_val(v)}", f"returned map {k} = row selection of the {what} sub-matrix")
+    n = _compressed_lockstep(ctx, "R1", mod, q, ki)
+    if n < 2:
+        raise Undecided(f"{PART}:{q}: expected two sub-matrix constructions, typed {n}")
+    ctx.sample({"rule": "R1", "child spaces": {k: fmt_space(v) for k, v in spaces.items()}})
+
+
+def rule_extract_submatrix(ctx: Ctx, mod) -> None:
+    q = "_extract_submatrix"
+    fn = view_of(mod, q)
+    params = [a.arg for a in fn.args.args]
+    if len(params) != 2:
+        raise AnchorError(f"{PART}:{q}: signature changed ({params})")
+    mname, iname = params
+    ki = KI(fn, f"{PART}:{q}", _reporter(ctx, "R2", mod, q))
+    m0 = Mat(E("m", "R"), E("m", "K"), None, "csc", ("param", mname))
+    ki.mats[m0.mid] = m0
+    ki.env[mname] = m0
+    ki.env[iname] = Arr(E("m", "K"), (("seq", ("param", iname)),), ("param", iname))
+    ki.run(fn.body)
+    rets = [(s, v) for s, v in ki.returns if isinstance(v, Tup) and len(v.items) == 2]
+    if len(rets) != 1:
+        raise Undecided(f"{PART}:{q}: expected one `return matrix, row map`")
+    rs, rv = rets[0]
+    rm, rmap = rv.items
+    if not isinstance(rm, Mat) or not isinstance(rmap, Arr):
+        raise Undecided(f"{PART}:{q}: cannot type the returned pair ({fmt_val(rm)}, {fmt_val(rmap)})")
+    st = rm.rk[1] if isinstance(rm.rk, tuple) and rm.rk[0] == "U" else None
+    ctx.check("R2", st is not None and rm.ck == ("sel", ("param", iname)) and origin(rm.mid) == ("param", mname), mod, q, rs,
+              f"the returned matrix must have the requested columns `{iname}` of `{mname}` and its rows renumbered by np.unique (found {fmt_val(rm)})",
+              construct="returned sub-matrix: unique rows x requested columns")
+    ctx.check("R2", rmap.ident == ("umap", st) and st is not None, mod, q, rs,
+              f"the returned map must be the unique-values array of the SAME np.unique call whose inverse renumbers the rows "
+              f"(found {fmt_ident(rmap.ident)}): local row i <-> global row map[i]", construct="returned map = unique values of the renumbering call")
+    # format established before the compressed arrays are read
+    guards = [s for s in ast.walk(fn) if isinstance(s, ast.If) and any(isinstance(x, ast.Raise) for x in s.body)
+              and "format" in u(s.test) and "csc" in u(s.test)]
+    conv = [c for c in ast.walk(fn) if isinstance(c, ast.Call) and call_name(c) == "tocsc"]
+    ctx.check("R2", bool(guards or conv), mod, q, fn,
+              "the indices/indptr arrays are read as column-compressed: the function must reject or convert a matrix that is not csc",
+              construct="format established (guard or conversion) before compressed arrays are read")
+    _compressed_lockstep(ctx, "R2", mod, q, ki)
+
+
+FACE_TO_CELL = {"cell_volumes": "face_areas", "cell_centers": "face_centers"}
+
+
+def rule_face_siblings(ctx: Ctx, mod) -> None:
+    for q in ("_extract_cells_from_faces_2d", "_extract_cells_from_faces_3d"):
+        fn = view_of(mod, q)
+        params = [a.arg for a in fn.args.args]
+        gname, fname = params[0], params[1]
+        ki = KI(fn, f"{PART}:{q}", _reporter(ctx, "R3", mod, q))
+        ki.env[gname] = GridV(gname)
+        fv = Arr(E(gname, "F"), (("seq", ("param", fname)),), ("param", fname))
+        ki.env[fname] = fv
+        ki.run(fn.body)
+        mr = _main_return(ki, 3)
+        if mr is None:
+            raise Undecided(f"{PART}:{q}: no single `return grid, faces, nodes` could be typed")
+        rs, rv = mr
+        h = rv.items[0]
+        cb = _ctor_of(ki, h)
+        if cb is None:
+            raise Undecided(f"{PART}:{q}: constructor of the returned grid not found")
+        cnode, bound, _ = cb
+        chk = lambda ok, node, msg, cons: ctx.check("R3", bool(ok), mod, q, node, msg, construct=cons)
+        # node map: unique rows of g.face_nodes[:, f]
+        nm = rv.items[2]
+        st = nm.ident[1] if isinstance(nm, Arr) and isinstance(nm.ident, tuple) and nm.ident[0] == "umap" else None
+        src = [arg for _c, s_, arg in ki.uniques if s_ == st and isinstance(arg, Arr)]
+        ok_src = bool(src) and isinstance(src[0].ident, tuple) and src[0].ident[0] == "indices" \
+            and src[0].ident[1] == ("cols", ("fn", gname), ("param", fname))
+        chk(ok_src and isinstance(nm, Arr) and nm.vk == E(gname, "N"), rs,
+            f"the returned node map must be the unique rows of {gname}.face_nodes restricted to the columns `{fname}` (found {fmt_val(nm)})",
+            "node map = unique nodes of the selected faces")
+        nodes = bound.get("nodes", (None, None))[1]
+        chk(isinstance(nodes, Arr) and isinstance(nodes.ident, tuple) and nodes.ident[:2] == ("gather", ("field", gname, "nodes"))
+            and nodes.axes is not None and st is not None and canon_space(nodes.axes[-1]) == ("U", st), cnode,
+            f"nodes of the lower-dimensional grid must be {gname}.nodes[:, node map] (found {fmt_val(nodes)})", "child nodes gathered with the node map")
+        chk(isinstance(rv.items[1], Arr) and rv.items[1].ident == ("param", fname), rs,
+            f"the second returned value must be the faces `{fname}` as given (found {fmt_ident(getattr(rv.items[1], 'ident', None))})",
+            "returned faces = given faces")
+        seen = set()
+        for s, recv, attr, val in ki.attr_stores:
+            if recv != h:
+                continue
+            if attr in FACE_TO_CELL:
+                seen.add(attr)
+                want = FACE_TO_CELL[attr]
+                ok = isinstance(val, Arr) and isinstance(val.ident, tuple) and val.ident[:2] == ("gather", ("field", gname, want)) \
+                    and val.axes is not None and canon_space(val.axes[-1]) == canon_space(("sel", ("param", fname)))
+                chk(ok, s, f"child.{attr} must be {gname}.{want} at the given faces `{fname}`, in their order (found {fmt_ident(getattr(val, 'ident', None))})",
+                    f"child.{attr} = parent.{want}[given faces]")
+            elif attr == "parent_face_ind":
+                seen.add(attr)
+                chk(isinstance(val, Arr) and val.ident == ("param", fname), s,
+                    f"parent_face_ind must be the faces `{fname}` as given", "parent_face_ind = given faces")
+        if not {"cell_volumes", "cell_centers"} <= seen:
+            raise Undecided(f"{PART}:{q}: the face->cell geometry copies were not found ({sorted(seen)})")
+    # 1d sibling: second returned value is the given face
+    q = "_extract_cells_from_faces_1d"
+    fn = view_of(mod, q)
+    fname = fn.args.args[1].arg
+    rets = [n for n in walk_local(fn) if isinstance(n, ast.Return) and isinstance(n.value, ast.Tuple) and len(n.value.elts) == 3]
+    if len(rets) != 1:
+        raise Undecided(f"{PART}:{q}: expected one 3-tuple return")
+    e1 = rets[0].value.elts[1]
+    ctx.check("R3", isinstance(e1, ast.Name) and e1.id == fname and not any(
+        isinstance(t, ast.Name) and t.id == fname for s_ in ast.walk(fn) if isinstance(s_, ast.Assign) for t in s_.targets), mod, q, rets[0],
+        f"the second returned value must be the given face `{fname}`", construct="returned faces = given faces")
+
+
+# ------------------------------------------------------------------------------------------
+#  R4 partition_structured
+# ------------------------------------------------------------------------------------------
+
+def tensor_dims(ctx: Ctx) -> list[int]:
+    """dimensions supported by TensorGrid: lengths of the cart_dims vectors assigned in its constructor"""
+    smod = ctx.repo.module(STRUCT)
+    init = smod.func("TensorGrid.__init__")
+    dims = set()
+    for s in ast.walk(init):
+        if isinstance(s, ast.Assign) and any(isinstance(t, ast.Attribute) and t.attr == "cart_dims" for t in s.targets):
+            for c in ast.walk(s.value):
+                if isinstance(c, ast.Call) and call_name(c) == "array" and c.args and isinstance(c.args[0], (ast.List, ast.Tuple)):
+                    dims.add(len(c.args[0].elts))
+    if not dims:
+        raise AnchorError(f"{STRUCT}:TensorGrid.__init__: assignments of cart_dims not found")
+    return sorted(dims)
+
+
+_J = sp.IndexedBase("J", integer=True)
+_CO = sp.IndexedBase("coarse", integer=True, positive=True)
+
+
+class _PS(KI):
+    def __init__(self, *a, **k):
+        super().__init__(*a, **k)
+        self.appended: list = []
+
+    def on_append(self, c: ast.Call, v):
+        sym = self._loopdepth[-1][0] if self._loopdepth else None
+        self.appended = [x for x in self.appended if x[0] is not c] + [(c, v, sym)]
+        if isinstance(v, Arr) and sym is not None:
+            return replace(v, val=_J[sym])
+        return v
+
+
+def _coarse_dims_val(n: Optional[int] = None):
+    return Dims(lambda i: _CO[i], "coarse_dims", n)
+
+
+def _range_of_direction_index(ctx: Ctx, mod, q: str, fn: ast.FunctionDef, ki: "_PS", gname: str) -> None:
+    """number of distinct per-direction coarse indices <= coarse_dims[i]"""
+    if len(ki.appended) != 1:
+        raise Undecided(f"{PART}:{q}: expected one per-direction index appended in the loop over the directions, found {len(ki.appended)}")
+    call, _v, sym = ki.appended[0]
+    if sym is None:
+        raise Undecided(f"{PART}:{q}: the per-direction index is not appended inside a counted loop")
+    loop = ki.loops[sym][2]
+    cart = sp.IndexedBase(f"cart_{gname}", integer=True, positive=True)
+    F, C = cart[sym], _CO[sym]
+    cons = "per-direction coarse index takes at most coarse_dims[i] values"
+
+    def defs(name: str) -> list:
+        return [s for s in ast.walk(loop) if isinstance(s, ast.Assign) and len(s.targets) == 1 and isinstance(s.targets[0], ast.Name)
+                and s.targets[0].id == name]
+
+    def resolve(e: ast.expr, depth: int = 4) -> ast.expr:
+        while isinstance(e, ast.Name) and depth > 0:
+            d = defs(e.id)
+            if len(d) != 1:
+                break
+            e, depth = d[0].value, depth - 1
+        return e
+
+    def intval(e: ast.expr):
+        v = ki.ev(e)
+        return v.p if isinstance(v, Int) else None
+
+    A = resolve(call.args[0])
+    # accepted closed forms ------------------------------------------------------------------
+    def is_arange_F(e):
+        e = resolve(e)
+        return isinstance(e, ast.Call) and call_name(e) == "arange" and len(e.args) == 1 and intval(e.args[0]) is not None \
+            and _z(intval(e.args[0]) - F)
+    inner = A
+    if isinstance(inner, ast.Call) and call_name(inner) == "astype" and isinstance(inner.func, ast.Attribute):
+        inner = inner.func.value
+    if isinstance(inner, ast.Call) and call_name(inner) == "floor" and inner.args:
+        inner = inner.args[0]
+        floored = True
+    else:
+        floored = False
+    if isinstance(inner, ast.BinOp) and isinstance(inner.op, (ast.Div, ast.FloorDiv)) and (floored or isinstance(inner.op, ast.FloorDiv)):
+        num, den = inner.left, inner.right
+        if isinstance(num, ast.BinOp) and isinstance(num.op, ast.Mult) and intval(den) is not None and _z(intval(den) - F):
+            for a, b in ((num.left, num.right), (num.right, num.left)):
+                if is_arange_F(a) and intval(b) is not None and _z(intval(b) - C):
+                    ctx.check("R4", True, mod, q, call, "index = floor(j * coarse / fine), 0 <= j < fine: values in [0, coarse)", construct=cons)
+                    return
+    if isinstance(inner, ast.Call) and call_name(inner) == "minimum" and len(inner.args) == 2:
+        for a, b in ((inner.args[0], inner.args[1]), (inner.args[1], inner.args[0])):
+            if intval(b) is not None and _z(intval(b) - (C - 1)):
+                ctx.check("R4", True, mod, q, call, "index clamped with minimum(., coarse - 1)", construct=cons)
+                return
+    # increment-position form:  cumsum(indicator of P) - 1 ------------------------------------------
+    if not (isinstance(A, ast.BinOp) and isinstance(A.op, ast.Sub) and isinstance(A.right, ast.Constant) and A.right.value == 1
+            and isinstance(A.left, ast.Call) and call_name(A.left) == "cumsum" and A.left.args and isinstance(A.left.args[0], ast.Name)):
+        raise Undecided(f"{PART}:{q}: per-direction index `{u(call.args[0])[:80]}` is not a recognised form")
+    Z = A.left.args[0].id
+    stores = [s for s in ast.walk(loop) if isinstance(s, (ast.Assign, ast.AugAssign))
+              and any(isinstance(t, ast.Subscript) and isinstance(t.value, ast.Name) and t.value.id == Z
+                      for t in (s.targets if isinstance(s, ast.Assign) else [s.target]))]
+    zdefs = defs(Z)
+    if len(stores) != 1 or len(zdefs) != 1 or not (isinstance(zdefs[0].value, ast.Call) and call_name(zdefs[0].value) == "zeros"):
+        raise Undecided(f"{PART}:{q}: indicator array `{Z}` is not zeros(..) with exactly one marking store")
+    st = stores[0]
+    tgt = st.targets[0] if isinstance(st, ast.Assign) else st.target
+    if not (isinstance(st.value, ast.Constant) and st.value.value == 1 and isinstance(tgt.slice, ast.Name)):
+        raise Undecided(f"{PART}:{q}: marking store `{u(st)}` not recognised")
+    P = tgt.slice.id
+    pdefs = defs(P)
+    if not pdefs or not (isinstance(pdefs[0].value, ast.Call) and call_name(pdefs[0].value) == "arange"):
+        raise Undecided(f"{PART}:{q}: increment positions `{P}` are not built by np.arange")
+    ar = pdefs[0].value
+    pos = [a for a in ar.args]
+    if len(pos) == 1:
+        start, stop, step = sp.Integer(0), intval(pos[0]), sp.Integer(1)
+    elif len(pos) == 2:
+        start, stop, step = intval(pos[0]), intval(pos[1]), sp.Integer(1)
+    elif len(pos) == 3:
+        start, stop, step = (intval(x) for x in pos)
+    else:
+        raise Undecided(f"{PART}:{q}: arange form not recognised")
+    if None in (start, stop, step) or start != 0:
+        raise Undecided(f"{PART}:{q}: cannot evaluate the bounds of `{u(ar)}` or it does not start at 0")
+    trunc = ("none", None)
+    if len(pdefs) == 2:
+        d1 = pdefs[1]
+        sl = d1.value.slice if isinstance(d1.value, ast.Subscript) and isinstance(d1.value.value, ast.Name) and d1.value.value.id == P else None
+        par = ki.pm.get(d1)
+        guard = None
+        if isinstance(par, ast.If) and any(d1 is x for x in par.body) and not par.orelse and isinstance(par.test, ast.Compare) \
+                and len(par.test.ops) == 1 and isinstance(par.test.ops[0], ast.Gt):
+            l = par.test.left
+            is_size = (isinstance(l, ast.Attribute) and l.attr == "size" and isinstance(l.value, ast.Name) and l.value.id == P) or \
+                (isinstance(l, ast.Call) and call_name(l) == "len" and l.args and isinstance(l.args[0], ast.Name) and l.args[0].id == P)
+            if is_size:
+                guard = intval(par.test.comparators[0])
+        if isinstance(sl, ast.Slice) and sl.lower is None and sl.step is None and sl.upper is not None:
+            up = intval(sl.upper)
+            if up is not None and up == -1 and guard is not None:
+                trunc = ("drop_last_if_gt", guard)
+            elif up is not None and up != -1:
+                trunc = ("first", up)
+        if trunc[0] == "none":
+            raise Undecided(f"{PART}:{q}: second definition of `{P}` (`{u(d1)}`) not recognised")
+    elif len(pdefs) > 2:
+        raise Undecided(f"{PART}:{q}: more than two definitions of `{P}`")
+    count0 = sp.ceiling((stop - start) / step)
+    # symbolic acceptance
+    if trunc[0] == "first" and _z(trunc[1] - C):
+        ctx.check("R4", True, mod, q, call, "increment positions sliced to the first coarse_dims[i] entries", construct=cons)
+        return
+    if trunc[0] == "none" and _z(stop - F) and step == sp.ceiling(F / C):
+        ctx.check("R4", True, mod, q, call, "step = ceil(fine/coarse): ceil(F/ceil(F/C)) <= C", construct=cons)
+        return
+    # refutation by a witness of the extracted closed form
+    witness = None
+    for Fv in range(1, 25):
+        for Cv in range(1, Fv + 1):
+            sub = {F: Fv, C: Cv}
+            try:
+                sv = step.subs(sub)
+                if not sv.is_Integer or sv <= 0:
+                    continue
+                n = int(sp.ceiling((stop.subs(sub) - 0) / sv))
+                if trunc[0] == "drop_last_if_gt":
+                    gv = int(trunc[1].subs(sub))
+                    n = n - 1 if n > gv else n
+                elif trunc[0] == "first":
+                    n = min(n, int(trunc[1].subs(sub)))
+            except (TypeError, ValueError, AttributeError):
+                continue
+            if n > Cv:
+                witness = (Fv, Cv, n)
+                break
+        if witness:
+            break
+    if witness is None:
+        raise Undecided(f"{PART}:{q}: cannot prove that the increment positions number at most coarse_dims[i] (no witness found either)")
+    Fv, Cv, n = witness
+    ctx.check("R4", False, mod, q, call,
+              f"the coarse index along a direction is a running count of the positions arange(0, F, {step}) "
+              f"({'at most one entry dropped when there are more than ' + str(trunc[1]) if trunc[0] == 'drop_last_if_gt' else 'truncation: ' + trunc[0]}); "
+              f"their number {count0} exceeds coarse_dims[i] by more than the truncation removes: F={Fv}, C={Cv} gives {n} distinct indices "
+              f"(ids reach {n - 1} >= {Cv}); the flat id then leaves [0, num_part) and different coarse cells collide",
+              construct=cons, facts={"witness": {"fine": Fv, "coarse": Cv, "distinct": n}, "count": str(count0), "truncation": trunc[0]})
+
+
+def rule_partition_structured(ctx: Ctx, mod) -> None:
+    q = "partition_structured"
+    fn = view_of(mod, q)
+    params = [a.arg for a in fn.args.args]
+    if len(params) < 3:
+        raise AnchorError(f"{PART}:{q}: signature changed ({params})")
+    gname, npart, cd = params[0], params[1], params[2]
+    dims = tensor_dims(ctx)
+    cart = sp.IndexedBase(f"cart_{gname}", integer=True, positive=True)
+    did_range = False
+    for d in dims:
+        ki = _PS(fn, f"{PART}:{q}", _reporter(ctx, "R4", mod, q),
+                 tuple_returning={"determine_coarse_dimensions": lambda k_, c_, a_, _d=d: _coarse_dims_val(_d)})
+        ki.env[gname] = GridV(gname)
+        ki.dim_value[gname] = d
+        ki.env[npart] = Int(S("num_part"))
+        ki.env[cd] = _coarse_dims_val(d)
+        ki.run(fn.body)
+        rets = [(s, v) for s, v in ki.returns]
+        final = rets[-1] if rets else None
+        unb = [n for n in ki.unbound if final is not None and any(n is x for x in ast.walk(final[0]))]
+        ok = final is not None and not unb
+        ctx.check("R4", ok, mod, q, final[0] if final else fn,
+                  f"TensorGrid supports dimension {d} ({STRUCT}), but on the path taken for g.dim == {d} the returned array "
+                  f"`{unb[0].id if unb else '?'}` is never assigned (no arm for this dimension: UnboundLocalError)",
+                  construct=f"partition ids are produced for grid dimension {d}", facts={"dim": d})
+        if not ok:
+            continue
+        v = final[1]
+        if not isinstance(v, Arr) or v.val is None or v.axes is None or len(v.axes) != 1:
+            raise Undecided(f"{PART}:{q}: cannot type the array returned for dimension {d} ({fmt_val(v)})")
+        want = sum(_J[sp.Integer(k)] * sp.prod([_CO[sp.Integer(j)] for j in range(k)]) for k in range(d))
+        ctx.check("R4", sp.expand(v.val - want) == 0, mod, q, final[0],
+                  f"dimension {d}: the flat coarse id must be the mixed-radix number {want} (stride of direction k = product of the coarse "
+                  f"dimensions below k); extracted: {sp.expand(v.val)} - a wrong stride is invisible when the coarse dimensions coincide",
+                  construct=f"dimension {d}: flat id = sum_k J_k * prod_(j<k) coarse_dims[j]", facts={"extracted": str(sp.expand(v.val))})
+        comps = list(v.axes[0][1]) if v.axes[0][0] == "prod" else [v.axes[0]]
+        want_ax = [("pos", cart[sp.Integer(k)]) for k in reversed(range(d))]
+        ctx.check("R4", comps == want_ax, mod, q, final[0],
+                  f"dimension {d}: the id array must be flattened with x running fastest, then y, then z (the cell numbering of TensorGrid); "
+                  f"extracted flattening order (slowest..fastest): {[fmt_space(c) for c in comps]}",
+                  construct=f"dimension {d}: flattening order = TensorGrid cell numbering", facts={"order": [fmt_space(c) for c in comps]})
+        if not did_range:
+            _range_of_direction_index(ctx, mod, q, fn, ki, gname)
+            did_range = True
+    if not did_range:
+        raise Undecided(f"{PART}:{q}: no dimension could be analysed for the range of the per-direction index")
+
+
+# ------------------------------------------------------------------------------------------
+#  R5 partition_coordinates
+# ------------------------------------------------------------------------------------------
+
+def _plain_defs(fn: ast.AST, name: str) -> list[ast.Assign]:
+    return [s for s in ast.walk(fn) if isinstance(s, ast.Assign) and len(s.targets) == 1 and isinstance(s.targets[0], ast.Name)
+            and s.targets[0].id == name]
+
+
+def _resolve(fn: ast.AST, e: ast.expr, depth: int = 5) -> ast.expr:
+    while isinstance(e, ast.Name) and depth > 0:
+        d = _plain_defs(fn, e.id)
+        if len(d) != 1:
+            break
+        e, depth = d[0].value, depth - 1
+    return e
+
+
+def _strip_shape(e: ast.expr) -> ast.expr:
+    """drop reshape(..)/[:, None]/[:, np.newaxis] column-vector decorations"""
+    while True:
+        if isinstance(e, ast.Call) and call_name(e) == "reshape" and isinstance(e.func, ast.Attribute):
+            e = e.func.value
+        elif isinstance(e, ast.Subscript) and isinstance(e.slice, ast.Tuple) and len(e.slice.elts) == 2 and isinstance(e.slice.elts[0], ast.Slice) \
+                and (u(e.slice.elts[1]) in ("None", "np.newaxis")):
+            e = e.value
+        else:
+            return e
+
+
+def _to_sym(e: ast.expr, fn: ast.AST, atoms: dict, keep: set, depth: int = 6):
+    """small arithmetic expression -> sympy over name symbols (names in `keep` are not resolved further)"""
+    if isinstance(e, ast.Constant) and isinstance(e.value, (int, float)):
+        return sp.nsimplify(e.value)
+    if isinstance(e, ast.Name):
+        if e.id not in keep and depth > 0:
+            d = _plain_defs(fn, e.id)
+            if len(d) == 1:
+                r = _to_sym(d[0].value, fn, atoms, keep, depth - 1)
+                if r is not None:
+                    return r
+        return atoms.setdefault(e.id, sp.Symbol(e.id))
+    if isinstance(e, ast.BinOp):
+        a, b = _to_sym(e.left, fn, atoms, keep, depth), _to_sym(e.right, fn, atoms, keep, depth)
+        if a is None or b is None:
+            return None
+        return {ast.Add: lambda: a + b, ast.Sub: lambda: a - b, ast.Mult: lambda: a * b, ast.Div: lambda: a / b}.get(type(e.op), lambda: None)()
+    if isinstance(e, ast.UnaryOp) and isinstance(e.op, ast.USub):
+        a = _to_sym(e.operand, fn, atoms, keep, depth)
+        return None if a is None else -a
+    e2 = _strip_shape(e)
+    if e2 is not e:
+        return _to_sym(e2, fn, atoms, keep, depth)
+    if isinstance(e, ast.Call) and call_name(e) in ("array", "asarray") and e.args:
+        return _to_sym(e.args[0], fn, atoms, keep, depth)
+    return None
+
+
+def rule_partition_coordinates(ctx: Ctx, mod) -> None:
+    q = "partition_coordinates"
+    fn = view_of(mod, q)
+    loops = []
+    for lp in ast.walk(fn):
+        if isinstance(lp, ast.For) and isinstance(lp.target, ast.Name) and isinstance(lp.iter, ast.Call) and call_name(lp.iter) == "range":
+            st = [s for s in ast.walk(lp) if isinstance(s, ast.Assign) and isinstance(s.targets[0], ast.Subscript)
+                  and isinstance(s.value, ast.Name) and s.value.id == lp.target.id]
+            if st:
+                loops.append((lp, st))
+    if len(loops) != 1:
+        raise Undecided(f"{PART}:{q}: expected one loop over the coarse boxes storing its index, found {len(loops)}")
+    lp, stores = loops[0]
+    iv = lp.target.id
+    chk = lambda ok, node, msg, cons, **f: ctx.check("R5", bool(ok), mod, q, node, msg or cons, construct=cons, facts=f or None)
+    # (a) trip count = product of the coarse-dimension vector
+    if len(lp.iter.args) != 1:
+        raise Undecided(f"{PART}:{q}: loop range has {len(lp.iter.args)} arguments")
+    n_expr = _resolve(fn, lp.iter.args[0])
+    while isinstance(n_expr, ast.Call) and call_name(n_expr) in ("int", "asarray") and n_expr.args:
+        n_expr = _resolve(fn, n_expr.args[0])
+    vec = None
+    if isinstance(n_expr, ast.Call) and call_name(n_expr) == "prod":
+        b = n_expr.func.value if isinstance(n_expr.func, ast.Attribute) and not n_expr.args else (n_expr.args[0] if n_expr.args else None)
+        if isinstance(b, ast.Name):
+            vec = b.id
+    if vec is None:
+        raise Undecided(f"{PART}:{q}: number of boxes `{u(n_expr)}` is not the product of a dimension vector")
+    chk(True, lp, "", "number of boxes = product of the coarse dimension vector", vector=vec)
+    # (b) the box multi-index unravels the loop index over the same vector
+    unr = [c for c in ast.walk(lp) if isinstance(c, ast.Call) and call_name(c) == "unravel_index"]
+    if len(unr) != 1:
+        raise Undecided(f"{PART}:{q}: expected one np.unravel_index in the box loop")
+    a0 = unr[0].args[0] if unr[0].args else kwarg(unr[0], "indices")
+    a1 = unr[0].args[1] if len(unr[0].args) > 1 else kwarg(unr[0], "shape")
+    chk(isinstance(a0, ast.Name) and a0.id == iv and isinstance(a1, ast.Name) and a1.id == vec, unr[0],
+        f"the box multi-index must be unravel_index(<loop index>, {vec}) - the vector whose product is the trip count; found `{u(unr[0])}`",
+        "box multi-index unravels the loop index over the same vector")
+    # the name holding the multi-index
+    ind_name = None
+    for s in ast.walk(lp):
+        if isinstance(s, ast.Assign) and any(c is unr[0] for c in ast.walk(s.value)) and isinstance(s.targets[0], ast.Name):
+            ind_name = s.targets[0].id
+    if ind_name is None:
+        raise Undecided(f"{PART}:{q}: the multi-index is not bound to a name")
+    # (c) bounds and comparisons
+    cmps = [c for c in ast.walk(lp) if isinstance(c, ast.Compare) and len(c.ops) == 1 and isinstance(c.ops[0], (ast.Gt, ast.GtE, ast.Lt, ast.LtE))]
+    lows = [c for c in cmps if isinstance(c.ops[0], (ast.Gt, ast.GtE))]
+    ups = [c for c in cmps if isinstance(c.ops[0], (ast.Lt, ast.LtE))]
+    if len(lows) != 1 or len(ups) != 1:
+        raise Undecided(f"{PART}:{q}: expected one lower and one upper comparison in the box loop")
+    lo, up = lows[0], ups[0]
+    chk(u(lo.left) == u(up.left), lo, f"both box comparisons must test the same coordinates (`{u(lo.left)}` vs `{u(up.left)}`)",
+        "lower and upper test apply to the same coordinate array")
+    closed = (isinstance(lo.ops[0], ast.GtE), isinstance(up.ops[0], ast.LtE))
+    chk(closed[0] != closed[1], lo,
+        f"adjacent boxes share a boundary: exactly one of the two tests may include equality (found `{u(lo)[:50]}` and `{u(up)[:50]}`); with both "
+        f"strict a centre on a box boundary gets no id, with both closed the boxes overlap", "boxes are half-open")
+    atoms: dict = {}
+    keep = {ind_name, vec}
+    L = _to_sym(lo.comparators[0], fn, atoms, keep)
+    U = _to_sym(up.comparators[0], fn, atoms, keep)
+    if L is None or U is None or ind_name not in atoms:
+        raise Undecided(f"{PART}:{q}: cannot extract the box bounds as formulas of the multi-index")
+    I = atoms[ind_name]
+    chk(_z(U - L.subs(I, I + 1)), up,
+        f"upper bound of box `ind` must equal the lower bound of box `ind+1` (extracted lower {L}, upper {U})", "upper(ind) == lower(ind + 1)",
+        lower=str(L), upper=str(U))
+    V = atoms.get(vec)
+    width = sp.simplify(U - L)
+    ok_w = V is not None and _z(width * V - (width * V).subs(V, 1)) and V in width.free_symbols
+    chk(ok_w, up, f"the box width must be <extent> / {vec} with the same vector {vec} that counts the boxes (extracted width {width}); otherwise the boxes do "
+        f"not tile the bounding box and cells remain unassigned", "box width divides the extent by the vector that counts the boxes", width=str(width))
+    for s in stores:
+        chk(True, s, "", "stored partition id = box loop index")
+
+
+# ------------------------------------------------------------------------------------------
+#  R6 producer / consumer agreement
+# ------------------------------------------------------------------------------------------
+
+def tuple_functions(mod) -> dict[str, int]:
+    """module-level functions every return of which is a k-tuple literal or a call of such a function (same k)"""
+    out: dict[str, int] = {}
+    changed = True
+    while changed:
+        changed = False
+        for st in mod.tree.body:
+            if not isinstance(st, ast.FunctionDef) or st.name in out:
+                continue
+            rets = [r for r in walk_local(st) if isinstance(r, ast.Return) and r.value is not None]
+            ks = set()
+            for r in rets:
+                v = _resolve(st, r.value, 2)
+                if isinstance(v, ast.Tuple):
+                    ks.add(len(v.elts))
+                elif isinstance(v, ast.Call) and isinstance(v.func, ast.Name) and v.func.id in out:
+                    ks.add(out[v.func.id])
+                else:
+                    ks.add(None)
+            if rets and len(ks) == 1 and None not in ks and min(ks) >= 2:
+                out[st.name] = ks.pop()
+                changed = True
+    return out
+
+
+def rule_consumers(ctx: Ctx, mod) -> None:
+    tf = tuple_functions(mod)
+    if "grid_is_connected" not in tf or "extract_subgrid" not in tf:
+        raise AnchorError(f"{PART}: grid_is_connected / extract_subgrid no longer return tuples on every path ({tf})")
+    for st in mod.tree.body:
+        if not isinstance(st, ast.FunctionDef):
+            continue
+        pm = parent_map(st)
+        for c in ast.walk(st):
+            if not (isinstance(c, ast.Call) and isinstance(c.func, ast.Name) and c.func.id in tf):
+                continue
+            k = tf[c.func.id]
+            par = pm.get(c)
+            cons = f"use of the {k}-tuple returned by {c.func.id}"
+            truthy = (isinstance(par, ast.UnaryOp) and isinstance(par.op, ast.Not)) or isinstance(par, ast.BoolOp) \
+                or (isinstance(par, (ast.If, ast.While, ast.IfExp, ast.Assert)) and par.test is c)
+            if truthy:
+                ctx.check("R6", False, mod, st.name, c,
+                          f"`{u(par)[:70] if not isinstance(par, (ast.If, ast.While)) else 'if ' + u(par.test)[:60]}`: {c.func.id} returns a {k}-tuple on every "
+                          f"path; a non-empty tuple is always true, so this test never selects the other arm",
+                          construct=cons + " as a truth value")
+                continue
+            if isinstance(par, ast.Assign) and par.value is c and len(par.targets) == 1 and isinstance(par.targets[0], (ast.Tuple, ast.List)):
+                t = par.targets[0]
+                ok = len(t.elts) == k or any(isinstance(e, ast.Starred) for e in t.elts)
+                ctx.check("R6", ok, mod, st.name, c, f"{c.func.id} returns {k} values but is unpacked into {len(t.elts)} targets",
+                          construct=cons + ": unpacked")
+                continue
+            ctx.check("R6", True, mod, st.name, c, f"{c.func.id}: tuple kept whole", construct=cons + ": forwarded / bound whole")
+    # partition_grid: lists returned in the order of extract_subgrid's values
+    q = "partition_grid"
+    fn = view_of(mod, q)
+    gname = fn.args.args[0].arg
+
+    def es(ki_, c_, a_):
+        return Tup((GridV("sub"), Arr(E(gname, "F"), (("U", "f"),), ("umap", "f")), Arr(E(gname, "N"), (("U", "n"),), ("umap", "n"))))
+    ki = KI(fn, f"{PART}:{q}", _reporter(ctx, "R6", mod, q), tuple_returning={"extract_subgrid": es})
+    ki.env[gname] = GridV(gname)
+    ki.run(fn.body)
+    rets = [(s, v) for s, v in ki.returns if isinstance(v, Tup) and len(v.items) == 3]
+    if len(rets) != 1 or not all(isinstance(x, ListV) and x.template is not None for x in rets[0][1].items):
+        raise Undecided(f"{PART}:{q}: the three returned lists could not be typed")
+    rs, rv = rets[0]
+    want = [("grids", lambda v: isinstance(v, GridV)), ("face maps", lambda v: isinstance(v, Arr) and v.vk == E(gname, "F")),
+            ("node maps", lambda v: isinstance(v, Arr) and v.vk == E(gname, "N"))]
+    for k, (what, pred) in enumerate(want):
+        v = rv.items[k].template[1]
+        ctx.check("R6", pred(v), mod, q, rs, f"returned list {k} must collect the {what} of extract_subgrid; it collects {fmt_val(v)}",
+                  construct=f"partition_grid: returned list {k} holds the {what}")
+
+
+# ------------------------------------------------------------------------------------------
+#  R7 overlap   R8 grid_is_connected   R9 subgrid_to_grid_mapping
+# ------------------------------------------------------------------------------------------
+
+def rule_overlap(ctx: Ctx, mod) -> None:
+    q = "overlap"
+    fn = view_of(mod, q)
+    params = [a.arg for a in fn.args.args]
+    if len(params) < 3:
+        raise AnchorError(f"{PART}:{q}: signature changed ({params})")
+    gname, cname, lname = params[0], params[1], params[2]
+    ki = KI(fn, f"{PART}:{q}", _reporter(ctx, "R7", mod, q))
+    ki.env[gname] = GridV(gname)
+    ki.env[cname] = Arr(E(gname, "C"), (("seq", ("param", cname)),), ("param", cname), frozenset({"selector"}))
+    NL = S("num_layers")
+    ki.env[lname] = Int(NL)
+    for p in params[3:]:
+        ki.env[p] = Opaque("str")
+    ki.run(fn.body)
+    if not ki.loops:
+        raise Undecided(f"{PART}:{q}: no counted layer loop found")
+    for sym, (lo, hi, node) in ki.loops.items():
+        ctx.check("R7", _z(hi - lo - NL), mod, q, node,
+                  f"each layer loop must run exactly {lname} times; `{u(node.iter)}` runs {sp.simplify(hi - lo)} times",
+                  construct=f"layer loop runs {lname} times", facts={"trips": str(sp.simplify(hi - lo))})
+    n_thr = 0
+    for node, arr in ki.thresholds:
+        if "signed" in arr.flags:
+            n_thr += 1
+            ctx.check("R7", False, mod, q, node,
+                      f"`{u(node)[:80]}`: a positive threshold is applied to the product of a SIGNED incidence matrix with the indicator: an entity whose "
+                      f"only active neighbour has sign -1 gives -1 and is missed, two active neighbours of opposite sign cancel",
+                      construct="threshold `> 0` applied to a sign-free product")
+        elif "unsigned" in arr.flags:
+            n_thr += 1
+            ctx.check("R7", True, mod, q, node, "threshold `> 0` applied to a sign-free product", construct="threshold `> 0` applied to a sign-free product")
+    if n_thr < 2 and not ctx.findings:
+        raise Undecided(f"{PART}:{q}: fewer than two typed incidence products under a positive threshold")
+    # the active cell set
+    rets = [(s, v) for s, v in ki.returns if s.value is not None]
+    if len(rets) != 1:
+        raise Undecided(f"{PART}:{q}: expected one return")
+    rs, rv = rets[0]
+    cand = [n.id for n in ast.walk(rs.value) if isinstance(n, ast.Name) and isinstance(ki.env.get(n.id), Arr)
+            and ki.env[n.id].axes == (E(gname, "C"),)]
+    if len(set(cand)) != 1:
+        e = _resolve(fn, rs.value)
+        cand = [n.id for n in ast.walk(e) if isinstance(n, ast.Name) and isinstance(ki.env.get(n.id), Arr) and ki.env[n.id].axes == (E(gname, "C"),)]
+    if len(set(cand)) != 1:
+        raise Undecided(f"{PART}:{q}: the indicator of the active cells is not identifiable from the return expression")
+    A = cand[0]
+    ctx.check("R7", isinstance(rv, Arr) and rv.vk == E(gname, "C"), mod, q, rs,
+              f"the function must return cell indices of {gname} (found {fmt_val(rv)})", construct="returned array holds cell indices")
+    arms = [s for s in ast.walk(fn) if isinstance(s, ast.If) and "criterion" in u(s.test)]
+    if arms and not any(isinstance(x, ast.Raise) for a in arms for x in ast.walk(a)):
+        ctx.note("overlap: an unknown `criterion` falls through both arms and silently returns the input cells (no else: raise)")
+
+
+def rule_connected(ctx: Ctx, mod) -> None:
+    q = "grid_is_connected"
+    fn = view_of(mod, q)
+    params = [a.arg for a in fn.args.args]
+    gname, cname = params[0], params[1]
+    ki = KI(fn, f"{PART}:{q}", _reporter(ctx, "R8", mod, q))
+    ki.env[gname] = GridV(gname)
+    ki.env[cname] = Arr(E(gname, "C"), (("seq", ("param", cname)),), ("param", cname))
+    ki.run(fn.body)
+    graph = [(c, a) for c, d, a in ki.calls if d.endswith("from_scipy_sparse_array") or d.endswith("from_scipy_sparse_matrix")]
+    if len(graph) != 1 or not graph[0][1] or not isinstance(graph[0][1][0], Mat):
+        raise Undecided(f"{PART}:{q}: the matrix handed to networkx could not be typed")
+    c, (m, *_) = graph[0]
+    ctx.check("R8", isinstance(origin(m.mid), tuple) and origin(m.mid)[0] == "c2c", mod, q, c,
+              f"connectivity must be tested on a restriction of {gname}.cell_connection_map() (origin {fmt_ident(origin(m.mid))})",
+              construct="graph built from cell_connection_map")
+    ctx.check("R8", m.rk == m.ck and isinstance(m.rk, tuple) and m.rk[0] == "sel", mod, q, c,
+              f"rows and columns of the connection map must be restricted with the same cell selection (rows {fmt_space(m.rk)}, columns {fmt_space(m.ck)})",
+              construct="same selection on rows and columns")
+
+
+def rule_subgrid_mapping(ctx: Ctx, mod) -> None:
+    q = "subgrid_to_grid_mapping"
+    fn = view_of(mod, q)
+    params = [a.arg for a in fn.args.args]
+    if len(params) < 5:
+        raise AnchorError(f"{PART}:{q}: signature changed ({params})")
+    sd, lf, lc, isv, nd = params[:5]
+    ki = KI(fn, f"{PART}:{q}", _reporter(ctx, "R9", mod, q))
+    ki.env[sd] = GridV(sd)
+    ki.env[lf] = Arr(E(sd, "F"), (("seq", ("param", lf)),), ("param", lf))
+    ki.env[lc] = Arr(E(sd, "C"), (("seq", ("param", lc)),), ("param", lc))
+    ki.env[nd] = Int(S("nd"))
+    ki.run(fn.body)
+    n = 0
+    for c, fmt, m, facts in ki.ctors:
+        if facts.get("kind") != "triplet":
+            continue
+        rows, cols, shp = facts["rows"], facts["cols"], facts["shape"]
+        if not (isinstance(rows, Arr) and isinstance(cols, Arr) and isinstance(shp, Tup) and len(shp.items) == 2
+                and all(isinstance(x, Int) for x in shp.items) and rows.vk is not None and cols.vk is not None
+                and rows.axes is not None and cols.axes is not None):
+            raise Undecided(f"{PART}:{q}: cannot type `{u(c)[:80]}`")
+        n += 1
+        for what, arr, k in (("row", rows, 0), ("column", cols, 1)):
+            z = size_of(arr.vk)
+            ctx.check("R9", z is not None and _z(z - shp.items[k].p), mod, q, c,
+                      f"the {what} indices point into {fmt_space(arr.vk)} ({z} entries) but the shape reserves {shp.items[k].p} {what}s",
+                      construct=f"map {n}: {what} index space agrees with the shape", facts={"space": fmt_space(arr.vk), "shape": str(shp.items[k].p)})
+        za, zb = size_of(rows.axes[-1]), size_of(cols.axes[-1])
+        ctx.check("R9", za is not None and zb is not None and _z(za - zb), mod, q, c,
+                  f"row and column index arrays are paired entry by entry and must have the same length ({za} vs {zb})",
+                  construct=f"map {n}: row/column arrays have equal length")
+    if n != 4:
+        raise Undecided(f"{PART}:{q}: expected four triplet constructors (vector/scalar x face/cell), typed {n}")
+    rets = [(s, v) for s, v in ki.returns if isinstance(v, Tup) and len(v.items) == 2]
+    if len(rets) != 1:
+        raise Undecided(f"{PART}:{q}: expected one `return face_map, cell_map`")
+
+
+def run(ctx: Ctx) -> None:
+    mod = ctx.repo.module(PART)
+    rule_extract_subgrid(ctx, mod)
+    rule_extract_submatrix(ctx, mod)
+    rule_face_siblings(ctx, mod)
+    rule_partition_structured(ctx, mod)
+    rule_partition_coordinates(ctx, mod)
+    rule_consumers(ctx, mod)
+    rule_overlap(ctx, mod)
+    rule_connected(ctx, mod)
+    rule_subgrid_mapping(ctx, mod)
+
+
+def _m(name, old, new, rule, control=False, count=1):
+    return dict(name=name, file=PART, old=old, new=new, rule=rule, control=control, count=count)
+
+
+MUTANTS = [
+    dict(name="parent-cell-ind-keeps-request-order", rule="R1", control=True, file=PART, edits=[
+        dict(file=PART, old="    if sort:\n        c = np.sort(np.atleast_1d(c))\n", new="    c_req = c\n    if sort:\n        c = np.sort(np.atleast_1d(c))\n"),
+        dict(file=PART, old="    h.parent_cell_ind = c\n", new="    h.parent_cell_ind = c_req\n")]),
+    dict(name="cell-volumes-in-request-order", rule="R1", file=PART, edits=[
+        dict(file=PART, old="    if sort:\n        c = np.sort(np.atleast_1d(c))\n", new="    c_req = c\n    if sort:\n        c = np.sort(np.atleast_1d(c))\n"),
+        dict(file=PART, old="        h.cell_volumes = g.cell_volumes[c]\n", new="        h.cell_volumes = g.cell_volumes[c_req]\n")]),
+    _m("returned-maps-swapped", "    return h, unique_faces, unique_nodes\n", "    return h, unique_nodes, unique_faces\n", "R1"),
+    _m("face-normals-from-face-centers", "h.face_normals = g.face_normals[:, unique_faces]", "h.face_normals = g.face_centers[:, unique_faces]", "R1"),
+    _m("face-areas-by-node-map", "h.face_areas = g.face_areas[unique_faces]", "h.face_areas = g.face_areas[unique_nodes]", "R1"),
+    _m("grid-matrix-slots-swapped", "g.dim, g.nodes[:, unique_nodes], fn_sub, cf_sub, name=g.name", "g.dim, g.nodes[:, unique_nodes], cf_sub, fn_sub, name=g.name", "R1"),
+    _m("face-nodes-of-sorted-faces", "_extract_submatrix(g.face_nodes.tocsc(), unique_faces)", "_extract_submatrix(g.face_nodes.tocsc(), np.sort(unique_faces)[::-1])", "R1"),
+    _m("submatrix-returns-inverse-map", "    return sps.csc_matrix((data, rows_sub, cols), shape), unique_rows\n",
+       "    return sps.csc_matrix((data, rows_sub, cols), shape), rows_sub\n", "R2", control=True),
+    _m("submatrix-first-occurrence-instead-of-inverse", "np.unique(sub_mat.indices, return_inverse=True)", "np.unique(sub_mat.indices, return_index=True)", "R2"),
+    _m("submatrix-keeps-global-rows", "sps.csc_matrix((data, rows_sub, cols), shape), unique_rows", "sps.csc_matrix((data, sub_mat.indices, cols), shape), unique_rows", "R2"),
+    _m("submatrix-guard-removed", "    if mat.format != \"csc\":\n        raise ValueError(\"To extract columns from a matrix, it must be csc\")\n", "", "R2"),
+    _m("faces3d-volumes-of-sorted-faces", "    h.cell_volumes = g.face_areas[f]\n    h.cell_centers = g.face_centers[:, f]\n\n    h.parent_face_ind = f  # type: ignore\n    return h, f, unique_nodes\n\n\ndef partition_grid",
+       "    h.cell_volumes = g.face_areas[np.sort(f)]\n    h.cell_centers = g.face_centers[:, f]\n\n    h.parent_face_ind = f  # type: ignore\n    return h, f, unique_nodes\n\n\ndef partition_grid", "R3"),
+    _m("faces2d-centres-from-normals", "    h.cell_centers = g.face_centers[:, f]\n\n    h.parent_face_ind = f  # type: ignore\n    return h, f, unique_nodes\n\n\ndef _extract_cells_from_faces_3d",
+       "    h.cell_centers = g.face_normals[:, f]\n\n    h.parent_face_ind = f  # type: ignore\n    return h, f, unique_nodes\n\n\ndef _extract_cells_from_faces_3d", "R3"),
+    _m("structured-stride-of-y", "glob_dims = (xi + yi * coarse_dims[0]).ravel(\"C\")", "glob_dims = (xi + yi * coarse_dims[1]).ravel(\"C\")", "R4", control=True),
+    _m("structured-2d-fortran-ravel", "glob_dims = (xi + yi * coarse_dims[0]).ravel(\"C\")", "glob_dims = (xi + yi * coarse_dims[0]).ravel(\"F\")", "R4"),
+    _m("structured-stride-of-z", "zi * np.prod(coarse_dims[:2])", "zi * np.prod(coarse_dims[1:])", "R4"),
+    _m("structured-3d-axes", "np.swapaxes(np.swapaxes(glob_dims, 1, 2), 0, 1).ravel(\"C\")", "np.swapaxes(glob_dims, 0, 2).ravel(\"C\")", "R4"),
+    _m("structured-2d-meshgrid-ij", "xi, yi = np.meshgrid(ind[0], ind[1])", "xi, yi = np.meshgrid(ind[0], ind[1], indexing=\"ij\")", "R4"),
+    _m("coordinates-width-from-other-vector", "    dx = delta / coarse_dims\n", "    dx = delta / delta_int\n", "R5"),
+    _m("coordinates-closed-boxes", "cc < upper_coord.reshape((-1, 1))", "cc <= upper_coord.reshape((-1, 1))", "R5"),
+    _m("coordinates-unravel-other-vector", "np.unravel_index(i, coarse_dims)", "np.unravel_index(i, delta_int)", "R5"),
+    _m("coordinates-upper-bound-shift", "upper_coord = min_coord + dx * (ind + 1)", "upper_coord = min_coord + dx * ind + 1", "R5"),
+    _m("partition-grid-lists-mixed", "        face_map_list.append(fm)\n", "        face_map_list.append(nm)\n", "R6"),
+    _m("partition-grid-unpack-order", "sg, fm, nm = extract_subgrid(g, ci)", "sg, nm, fm = extract_subgrid(g, ci)", "R6"),
+    _m("overlap-one-layer-short", "for _ in range(num_layers):", "for _ in range(num_layers - 1):", "R7", count=2),
+    _m("overlap-signed-incidence", "cf = sps.csc_matrix((data, cf.indices, cf.indptr))", "cf = sps.csc_matrix((cf.data, cf.indices, cf.indptr))", "R7"),
+    _m("overlap-face-arm-marks-nodes", "            active_faces[np.squeeze(np.where((cf * active_cells) > 0))] = 1",
+       "            active_faces[np.squeeze(np.where((g.cell_nodes() * active_cells) > 0))] = 1", "R7"),
+    _m("connected-columns-not-restricted", "c2c.tocsr()[cell_ind, :].tocsc()[:, cell_ind]", "c2c.tocsr()[cell_ind, :].tocsc()[:, np.sort(cell_ind)]", "R8"),
+    _m("mapping-cell-map-transposed", "(np.ones(num_cells_loc), (np.arange(num_cells_loc), loc_cells)),", "(np.ones(num_cells_loc), (loc_cells, np.arange(num_cells_loc))),", "R9"),
+    _m("mapping-face-rows-sized-by-cells", "            shape=(sd.num_faces * nd, num_faces_loc * nd),", "            shape=(sd.num_cells * nd, num_faces_loc * nd),", "R9"),
+]
